@@ -15,13 +15,20 @@
   `commuteGuard` (`commute_succeeds_replace`: one step inside a node the other does not touch; false
   without a guard, `commute_needs_guard`), and likewise for a replace step outside `[from, to]` of a
   replace-around step (`commute_succeeds_around`) and for two replace-around steps one after the other
-  (`commute_succeeds_around_around`), and for a node-mark / attr step before a replace-around step
-  (`commute_succeeds_around_nodeStep_before_partial`).  A step strictly inside the kept gap: guard `gapGuard` found and tied to the
-  real code, theorem `commute_succeeds_around_gap` stated, not proved (last section: what is missing).
+  (`commute_succeeds_around_around`), and for a node-mark / attr step before or after a
+  replace-around step (`commute_succeeds_around_nodeStep_partial`) and for mark steps outside `[from, to]`
+  (`commute_succeeds_around_removeMark_partial`, `commute_succeeds_around_addMark_partial`: `commuteGuard`, validity,
+  `TextLoop`).  A step strictly inside the kept gap (overlapping in the property's sense; last section): guard
+  `gapGuard` tied to the real code; under it, for a replace-around step with a closed slice, both orders apply and
+  agree for a replace step (`commute_succeeds_around_gap`), another replace-around step
+  (`commute_succeeds_around_around_gap`), a mark step (`commute_succeeds_around_mark_gap_partial`) and a node-mark / attr
+  step (`commute_succeeds_around_nodeStep_gap_partial`); the guard cannot be dropped (example `gapGuard_needs`).
+  Without `commuteGuard`: an attr / remove-node-mark step outside `[from, to]` of a replace-around step with a closed
+  slice (`commute_succeeds_around_nodeStep_closed_partial`).
   Helper lemmas: Proofs/Commute.lean, Proofs/CommuteMarkup.lean, Proofs/CommuteSuccess.lean,
   Proofs/CommuteSuccessR.lean, Proofs/Lvl.lean; for replace-around steps Proofs/CommuteAround.lean,
   Proofs/CommuteAroundDocs.lean, Proofs/CommuteAroundMarkup.lean, Proofs/CommuteAroundSuccess.lean,
-  Proofs/CommuteAroundAgain.lean, Proofs/ContentBetweenToks.lean.
+  Proofs/CommuteAroundAgain.lean, Proofs/GapInner.lean, Proofs/ContentBetweenToks.lean.
 -/
 import PM.Step
 import Proofs.StepToks
@@ -34,6 +41,8 @@ import Proofs.CommuteAroundDocs
 import Proofs.CommuteAroundMarkup
 import Proofs.CommuteAroundSuccess
 import Proofs.CommuteAroundAgain
+import Props.C01
+import Proofs.GapInner
 namespace PM.C17
 open PM
 
@@ -1243,17 +1252,18 @@ FULL STATEMENTS (not proved):
     commute_succeeds_around_nodeStep : the same for `pos + 1 < f ∨ (gf < pos ∧ pos + 1 < gt) ∨ t < pos`, without `hg`
       for attr / remove-node-mark steps (they change no mark set a parent could refuse; add-node-mark needs that the
       parent of the addressed node keeps its type, finding C17-parent-retyped);
-    commute_succeeds_around_removeMark, commute_succeeds_around_addMark_partial (under `ParentStable`).
-Proved: the node step strictly before `from` (its token may be an ancestor's open token), under `commuteGuard`
-(not forced for attr steps: a guard-free proof needs "a replace does not read the markup of tokens outside its range
-except through `validContent` of rebuilt parents", which does not exist yet).  Missing for the rest:
-* `t < pos`: the same proof with `around_again_same` and `nodeAtKids_of_head` at the shifted position — not done
-  for lack of time, nothing new needed;
-* inside the gap: as for `commute_succeeds_around_gap` below (the filled slice differs in one token's markup);
-* mark steps: their slice may be open, and `da.slice f2' t2'` has to be shown to carry the same markup on its open
-  spine as `d.slice f2 t2` (`slice_again` covers closed slices only); alternatively `addMark_applies` /
-  `removeMark_applies` on `da` (valid document, `TextLoop`) for the mark step and `replaceKids_map`-style re-validation
-  for the replace-around step on `db`. -/
+    commute_succeeds_around_removeMark, commute_succeeds_around_addMark_partial (under `ParentStable`): proved for
+      ranges strictly outside `[from, to]` under `commuteGuard`, validity and `TextLoop`, next section.
+Proved: the node step strictly before `from` (its token may be an ancestor's open token) or strictly after `to`, under
+`commuteGuard`; inside the gap under `gapGuard` (`commute_succeeds_around_nodeStep_gap_partial`, last section).
+The guard is not forced for attr / remove-node-mark steps: for replace-around steps with a closed slice it is dropped
+in `commute_succeeds_around_nodeStep_closed_partial` (last section): the rebased node step applies to `da` by
+`attrStep_applies` / `removeNodeMark_applies` (valid `da`, the node is found again by `nodeAtKids_of_head`), the
+replace-around step reaches `dab = N'(da)` from `db` by the target-based criterion `replaceKids_merged`; the
+right-hand sides are related by `rightRel_remarkAt_before` (node before the range or an ancestor of it: chain
+`db ~ d ~ da ~ dab`) resp. `rightRel_remark` (node after the range: the relation `da ~ d` survives re-marking the
+corresponding node on both sides), Proofs/GapInner.lean.  Open: slices open on a side (a `lift` out of the middle).
+Mark steps: next two sections (outside `[from, to]`; inside the gap). -/
 
 /-- **a node-mark / attr step on a token strictly before a replace-around step's range, one of the two inside a node
     the other one does not touch**: neither rebased step is dropped (both unchanged), both orders apply, and they
@@ -1331,6 +1341,342 @@ theorem commute_succeeds_around_nodeStep_before_partial (S : Schema) (d da db : 
     rwa [show pos + 1 + (f - (pos + 1)) = f by omega, show pos + 1 + (t - (pos + 1)) = t by omega,
       show pos + 1 + (gf - (pos + 1)) = gf by omega, show pos + 1 + (gt - (pos + 1)) = gt by omega] at this
 
+/-- **the token strictly after the replace-around step's range** (`to < pos`): the node step moves by the step's size
+    change, the replace-around step is unchanged -/
+theorem commute_succeeds_around_nodeStep_after_partial (S : Schema) (d da db : Node) (f t gf gt ins : Nat)
+    (sl : Slice) (st : Bool) (pos : Nat) (N : Step) (hN : NodeStepAt pos N)
+    (hn : fnorm d.kids = true) (hsn : fnorm sl.content = true)
+    (hs : AroundShape f t gf gt sl ins) (hsep : t < pos)
+    (ha : S.apply (.replaceAround f t gf gt sl ins st) d = .ok da) (hb : S.apply N d = .ok db)
+    (hg : commuteGuard d.kids f t sl pos (pos + 1) ⟨[], 0, 0⟩ = true) :
+    ∃ N' dab, N.map (Step.replaceAround f t gf gt sl ins st).getMap = some N' ∧
+      (Step.replaceAround f t gf gt sl ins st).map N.getMap = some (.replaceAround f t gf gt sl ins st) ∧
+      S.apply N' da = .ok dab ∧ S.apply (.replaceAround f t gf gt sl ins st) db = .ok dab := by
+  have hsp : N.posSpan = some (pos, pos) := by
+    rcases hN with ⟨m, rfl⟩ | ⟨m, rfl⟩ | ⟨n, v, rfl⟩ <;> rfl
+  have hto : N.touch = some (pos, pos + 1) := by
+    rcases hN with ⟨m, rfl⟩ | ⟨m, rfl⟩ | ⟨n, v, rfl⟩ <;> rfl
+  obtain ⟨n, u, hnat, hu, hfrN⟩ := nodeStep_full S d db pos N hN hb
+  obtain ⟨hposlt, _, htok, _, _, _, _⟩ := nodeRepl_toks S d db n u pos _ _ hnat hu hfrN
+  obtain ⟨hsz, hun⟩ := nodeSlice_facts S n u _ _ hu
+  have hnt : n.isText = false := by
+    cases n with
+    | text s m => simp [Schema.recreate] at hu
+    | leaf => rfl
+    | elem => rfl
+  have hb2 : S.apply (.replace pos (pos + 1) ⟨[u], 0, if n.isLeaf then 0 else 1⟩ false) d = .ok db := by
+    simpa [Schema.apply] using hfrN
+  obtain ⟨gap, I, hgap, ho1, ho2, hinst, ha2, hio, hin, hisz, hl⟩ :=
+    around_as_replace S d da f t gf gt ins sl st hn hsn hs ha
+  have hgo := hs.2.2
+  have hg' : commuteGuard d.kids f t I pos (pos + 1) ⟨[u], 0, if n.isLeaf then 0 else 1⟩ = true := by
+    rw [commuteGuard_openStart _ _ _ _ _ sl ⟨[], 0, 0⟩ I ⟨[u], 0, if n.isLeaf then 0 else 1⟩ hio rfl]; exact hg
+  obtain ⟨a', b', dab, hb', ha', hab, hba⟩ := commute_succeeds_replace S d da db f t pos (pos + 1) I _
+    false false hn hin hun hsep ha2 hb2 hg'
+  obtain ⟨hdb, _, hlp, hlenN⟩ := apply_replace_splice S d db pos (pos + 1) _ false hb2
+  obtain ⟨hda, _, _, hleni⟩ := apply_replace_splice S d da f t I false ha2
+  obtain ⟨r1, r2⟩ := rebase_separated_after f t pos (pos + 1) I ⟨[u], 0, if n.isLeaf then 0 else 1⟩ false false
+    (by omega) (by omega) hsep (by omega)
+  rw [r1] at hb'; rw [r2] at ha'
+  simp only [Option.some.injEq] at hb' ha'
+  subst hb' ha'
+  have hnb := apply_replace_norm S d db pos (pos + 1) _ false hn hun hb2
+  have hna := apply_replace_norm S d da f t I false hn hin ha2
+  have hmap := (rebase_markup_not_dropped_around N pos pos hsp (Nat.le_refl _) f t gf gt sl ins st hgo).2.2 hsep
+  have n1 : ∀ p : Nat, t < p →
+      ((p : Int) + ((ins : Int) - ((gf : Int) - f)) + (sl.size - ins - ((t : Int) - gt))).toNat =
+        f + I.toks.length + (p - t) := by
+    intro p hp; omega
+  have n2 : ∀ p : Nat, t < p → ((p : Int) + I.size - ((t : Int) - f)).toNat = f + I.toks.length + (p - t) := by
+    intro p hp; omega
+  generalize hgdef : (fun p : Nat => ((p : Int) + ((ins : Int) - ((gf : Int) - f)) +
+    (sl.size - ins - ((t : Int) - gt))).toNat) = g at hmap
+  have hgpos : g pos = f + I.toks.length + (pos - t) := by rw [← hgdef]; exact n1 pos hsep
+  refine ⟨_, dab, hmap, ?_, ?_, ?_⟩
+  · rw [getMap_of_touch N pos (pos + 1) hto]
+    exact replaceAround_map_empty f t gf gt sl ins st ⟨hgo.1, hgo.2.2⟩
+  · have hfr := apply_replace_fromReplace S da dab _ _ _ false hab
+    rw [n2 pos hsep, n2 (pos + 1) (by omega)] at hfr
+    obtain ⟨e1, e2, e3⟩ := stepAttrs_mapPos N g pos hN
+    rw [hgpos] at e3
+    have hp : pos < (ftoks d.kids).length := by omega
+    have htok' : (ftoks da.kids)[f + I.toks.length + (pos - t)]? = some n.headTok := by
+      have := splice_window_after (ftoks d.kids) I.toks f t pos 1 (by omega) (by omega) (by omega)
+      rw [← hda] at this
+      have h0 := congrArg (fun l => l[0]?) this
+      simp only [List.getElem?_take_of_lt (Nat.zero_lt_one), List.getElem?_drop, Nat.add_zero] at h0
+      rw [h0, List.getElem?_eq_getElem hp]
+      rw [List.getD_eq_getElem?_getD, List.getElem?_eq_getElem hp] at htok
+      simpa using htok
+    obtain ⟨n', hnat', hhd, hnt'⟩ := nodeAtKids_of_head da.kids _ n.headTok (fnormKids_of_fnorm hna) htok'
+      (by cases n <;> simp [Node.headTok, Node.isText] at hnt ⊢)
+      (by intro c m; cases n <;> simp [Node.headTok, Node.isText] at hnt ⊢)
+    obtain ⟨c1, c2, c3, c4⟩ := recreate_congr_head S n n' (stepAttrs N n.attrs) (stepMarks S N n.marks) hhd hnt hnt'
+    have hu' : S.recreate n' (stepAttrs (N.mapPos g) n'.attrs) (stepMarks S (N.mapPos g) n'.marks) = .ok u := by
+      rw [e1, e2 S, c2, c3, c1]; exact hu
+    rw [nodeStep_apply_of S da n' u _ _ e3 hnat' hu', c4]
+    rw [show f + I.toks.length + (pos + 1 - t) = f + I.toks.length + (pos - t) + 1 by omega] at hfr
+    exact hfr
+  · have hfr := apply_replace_fromReplace S db dab _ _ I false hba
+    exact around_again_same S d db da dab f t gf gt ins pos (pos + 1) sl _ st gap I hn hnb hgo hsep
+      (by omega) (by omega) hdb ha hgap ho1 ho2 hinst hfr
+
+/-- **a replace-around step and a node-mark / attr step on a token strictly outside `[from, to]`, one of the two inside
+    a node the other one does not touch**: neither rebased step is dropped, both orders apply, and they give the same
+    document -/
+theorem commute_succeeds_around_nodeStep_partial (S : Schema) (d da db : Node) (f t gf gt ins : Nat)
+    (sl : Slice) (st : Bool) (pos : Nat) (N : Step) (hN : NodeStepAt pos N)
+    (hn : fnorm d.kids = true) (hsn : fnorm sl.content = true)
+    (hs : AroundShape f t gf gt sl ins)
+    (ha : S.apply (.replaceAround f t gf gt sl ins st) d = .ok da) (hb : S.apply N d = .ok db)
+    (hg : (pos + 1 < f ∧ commuteGuard d.kids pos (pos + 1) ⟨[], 0, 0⟩ f t sl = true) ∨
+      (t < pos ∧ commuteGuard d.kids f t sl pos (pos + 1) ⟨[], 0, 0⟩ = true)) :
+    ∃ N' dab, N.map (Step.replaceAround f t gf gt sl ins st).getMap = some N' ∧
+      (Step.replaceAround f t gf gt sl ins st).map N.getMap = some (.replaceAround f t gf gt sl ins st) ∧
+      S.apply N' da = .ok dab ∧ S.apply (.replaceAround f t gf gt sl ins st) db = .ok dab := by
+  rcases hg with ⟨h, hg⟩ | ⟨h, hg⟩
+  · obtain ⟨dab, h1, h2, h3, h4⟩ := commute_succeeds_around_nodeStep_before_partial S d da db f t gf gt ins sl st pos N
+      hN hn hsn hs h ha hb hg
+    exact ⟨N, dab, h1, h2, h3, h4⟩
+  · exact commute_succeeds_around_nodeStep_after_partial S d da db f t gf gt ins sl st pos N hN hn hsn hs h ha hb hg
+
+/-! ### both rebased orders apply — replace-around step vs. mark step outside `[from, to]`
+
+A mark step that applies is the plain replace of its range by the re-marked slice (`markStep_as_replace`), so under
+`commuteGuard` (with the cut slice `old = d.slice f2 t2` giving the mark step's depth of descent)
+`commute_succeeds_replace` makes the replace-around step's filled replace apply to `db`, and `around_again_*` turns it
+back into the replace-around step.  The rebased mark step applies to `da` because `da` is a valid normal-form
+document (`C01.apply_valid`) and its ends stay pair-aligned (`addMark_applies` / `removeMark_applies`, `TextLoop`); the
+two results are equal by the convergence theorems above.  `_partial`: `commuteGuard` is not forced for mark steps
+(a guard-free proof needs a target-based success criterion for `replaceKids` — `replaceKids_undoG` /
+`replaceKids_merged` are of that kind — plus `RightRel` / `LeftRel` between `db` and the expected result, i.e. how a
+mark step changes the tree right of a position; not available), and the inside-the-gap position is `commute_succeeds_around_mark_gap_partial` (last section). -/
+
+/-- **replace-around step vs. mark step strictly before its range: both rebased steps apply** (the documents are
+    compared by the convergence theorems) -/
+theorem around_mark_core_before (S : Schema) (hts : TextLoop S) (d da db : Node) (f t gf gt ins : Nat)
+    (sl : Slice) (st : Bool) (f2 t2 : Nat) (mk : Mark) (M : Step)
+    (hM : M = .addMark f2 t2 mk ∨ M = .removeMark f2 t2 mk)
+    (hv : C01.Valid S d) (hpv : C01.PayloadValid S d (.replaceAround f t gf gt sl ins st))
+    (hn : fnorm d.kids = true) (hsn : fnorm sl.content = true)
+    (hs : AroundShape f t gf gt sl ins) (hsep : t2 < f)
+    (ha : S.apply (.replaceAround f t gf gt sl ins st) d = .ok da) (hb : S.apply M d = .ok db)
+    (old : Slice) (hold : d.slice f2 t2 = .ok old) (hg : commuteGuard d.kids f2 t2 old f t sl = true) :
+    ∃ dab dba, M.map (Step.replaceAround f t gf gt sl ins st).getMap = some M ∧
+      (Step.replaceAround f t gf gt sl ins st).map M.getMap = some (.replaceAround f t gf gt sl ins st) ∧
+      S.apply M da = .ok dab ∧ S.apply (.replaceAround f t gf gt sl ins st) db = .ok dba ∧
+      fnorm dab.kids = true ∧ fnorm dba.kids = true := by
+  obtain ⟨hsp, hto⟩ := markStep_span f2 t2 mk M hM
+  obtain ⟨old', slM, hold', hos, hslMn, hb2⟩ := markStep_as_replace S d db f2 t2 mk M hM hn hb
+  rw [hold] at hold'; cases hold'
+  have F := markStep_facts S d db f2 t2 mk M hM hb
+  obtain ⟨hle, ht2⟩ := F.range
+  obtain ⟨gap, I, hgap, ho1, ho2, hinst, ha2, hio, hin, hisz, hl⟩ :=
+    around_as_replace S d da f t gf gt ins sl st hn hsn hs ha
+  have hgo := hs.2.2
+  have hg' : commuteGuard d.kids f2 t2 slM f t I = true := by
+    rw [commuteGuard_openStart _ _ _ _ _ old sl slM I hos hio]; exact hg
+  obtain ⟨a', b', dab0, hb', ha', hab, hba⟩ := commute_succeeds_replace S d db da f2 t2 f t slM I
+    false false hn hslMn hin hsep hb2 ha2 hg'
+  obtain ⟨hdb, _, hlp, hlenM⟩ := apply_replace_splice S d db f2 t2 slM false hb2
+  obtain ⟨hda, _, _, hleni⟩ := apply_replace_splice S d da f t I false ha2
+  have hnb := F.norm hn
+  have hna := apply_replace_norm S d da f t I false hn hin ha2
+  have hlenS : slM.toks.length = t2 - f2 := by
+    have h1 := F.size
+    rw [← ftoks_length, ← ftoks_length, hdb, splice_length _ _ _ _ hle hlp] at h1
+    omega
+  obtain ⟨r1, r2⟩ := rebase_separated_after f2 t2 f t slM I false false hle (by omega) hsep (by omega)
+  rw [r1] at hb'
+  simp only [Option.some.injEq] at hb'
+  subst hb'
+  -- the replace-around step on `db`
+  have hAdb : S.apply (.replaceAround f t gf gt sl ins st) db = .ok dab0 := by
+    have hfr := apply_replace_fromReplace S db dab0 _ _ I false hab
+    have n1 : ∀ p : Nat, t2 < p → ((p : Int) + slM.size - ((t2 : Int) - f2)).toNat = p := by
+      intro p hp; omega
+    rw [n1 f hsep, n1 t (by omega)] at hfr
+    have := around_again_shifted S d db da dab0 f t gf gt ins f2 t2 sl slM.toks st gap I hn hnb hgo hsep
+      hle hl hdb ha hgap ho1 ho2 hinst
+      (by rw [hlenS, show f2 + (t2 - f2) + (f - t2) = f by omega, show f2 + (t2 - f2) + (t - t2) = t by omega]
+          exact hfr)
+    rw [hlenS] at this
+    rwa [show f2 + (t2 - f2) + (f - t2) = f by omega, show f2 + (t2 - f2) + (t - t2) = t by omega,
+      show f2 + (t2 - f2) + (gf - t2) = gf by omega, show f2 + (t2 - f2) + (gt - t2) = gt by omega] at this
+  -- the mark step on `da`
+  obtain ⟨ty, a, m, K, K', rfl, rfl, hrK⟩ := fromReplace_parts S d db f2 t2 slM
+    (apply_replace_fromReplace S _ _ _ _ _ false hb2)
+  obtain ⟨al1, al2⟩ := replaceKids_aligned S ty K f2 t2 slM K' hrK
+  obtain ⟨ty', a', m', K0, Ka, e0, rfl, hrA⟩ := fromReplace_parts S _ da f t I
+    (apply_replace_fromReplace S _ _ _ _ _ false ha2)
+  cases e0
+  simp only [Node.kids] at hn hna hda hl al1 al2 ht2 ⊢
+  have hvda : S.checkNode (.elem ty a m Ka) = true := C01.apply_valid S _ _ _ hv hpv ha
+  have hlenda : (ftoks Ka).length = f + I.toks.length + ((ftoks K).length - t) := by
+    rw [hda]; exact splice_length _ _ _ _ (by omega) hl
+  obtain ⟨dab, hMda⟩ := markStep_applies S hts (.elem ty a m Ka) f2 t2 mk id M hM hvda hna ⟨_, _, _, _, rfl⟩
+    hle (by simp only [id, Node.kids]; rw [← ftoks_length, hlenda]; omega)
+    (aligned_before_splice K Ka _ f t f2 hn hna hda (by omega) (by omega) al1)
+    (aligned_before_splice K Ka _ f t t2 hn hna hda (by omega) hsep al2)
+  rw [Step.mapPos_id _ id (fun _ => rfl)] at hMda
+  have Fda := markStep_facts S _ dab f2 t2 mk M hM hMda
+  refine ⟨dab, dab0, ?_, ?_, hMda, hAdb, Fda.norm hna, apply_replace_norm S _ dab0 _ _ I false hnb hin hab⟩
+  · exact (rebase_markup_not_dropped_around M f2 t2 hsp hle f t gf gt sl ins st hgo).1 hsep
+  · rw [getMap_of_touch M f2 t2 hto]
+    exact replaceAround_map_empty f t gf gt sl ins st ⟨hgo.1, hgo.2.2⟩
+
+/-- **… strictly after its range**: the mark step moves by the size change -/
+theorem around_mark_core_after (S : Schema) (hts : TextLoop S) (d da db : Node) (f t gf gt ins : Nat)
+    (sl : Slice) (st : Bool) (f2 t2 : Nat) (mk : Mark) (M : Step)
+    (hM : M = .addMark f2 t2 mk ∨ M = .removeMark f2 t2 mk)
+    (hv : C01.Valid S d) (hpv : C01.PayloadValid S d (.replaceAround f t gf gt sl ins st))
+    (hn : fnorm d.kids = true) (hsn : fnorm sl.content = true)
+    (hs : AroundShape f t gf gt sl ins) (hsep : t < f2)
+    (ha : S.apply (.replaceAround f t gf gt sl ins st) d = .ok da) (hb : S.apply M d = .ok db)
+    (old : Slice) (hold : d.slice f2 t2 = .ok old) (hg : commuteGuard d.kids f t sl f2 t2 old = true) :
+    ∃ dab dba, M.map (Step.replaceAround f t gf gt sl ins st).getMap =
+        some (M.mapPos (fun p => ((p : Int) + ((ins : Int) - ((gf : Int) - f)) +
+          (sl.size - ins - ((t : Int) - gt))).toNat)) ∧
+      (Step.replaceAround f t gf gt sl ins st).map M.getMap = some (.replaceAround f t gf gt sl ins st) ∧
+      S.apply (M.mapPos (fun p => ((p : Int) + ((ins : Int) - ((gf : Int) - f)) +
+          (sl.size - ins - ((t : Int) - gt))).toNat)) da = .ok dab ∧
+      S.apply (.replaceAround f t gf gt sl ins st) db = .ok dba ∧
+      fnorm dab.kids = true ∧ fnorm dba.kids = true := by
+  obtain ⟨hsp, hto⟩ := markStep_span f2 t2 mk M hM
+  obtain ⟨old', slM, hold', hos, hslMn, hb2⟩ := markStep_as_replace S d db f2 t2 mk M hM hn hb
+  rw [hold] at hold'; cases hold'
+  have F := markStep_facts S d db f2 t2 mk M hM hb
+  obtain ⟨hle, ht2⟩ := F.range
+  obtain ⟨gap, I, hgap, ho1, ho2, hinst, ha2, hio, hin, hisz, hl⟩ :=
+    around_as_replace S d da f t gf gt ins sl st hn hsn hs ha
+  have hgo := hs.2.2
+  have hg' : commuteGuard d.kids f t I f2 t2 slM = true := by
+    rw [commuteGuard_openStart _ _ _ _ _ sl old I slM hio hos]; exact hg
+  obtain ⟨a', b', dab0, hb', ha', hab, hba⟩ := commute_succeeds_replace S d da db f t f2 t2 I slM
+    false false hn hin hslMn hsep ha2 hb2 hg'
+  obtain ⟨hdb, _, hlp, hlenM⟩ := apply_replace_splice S d db f2 t2 slM false hb2
+  obtain ⟨hda, _, _, hleni⟩ := apply_replace_splice S d da f t I false ha2
+  have hnb := F.norm hn
+  have hna := apply_replace_norm S d da f t I false hn hin ha2
+  obtain ⟨r1, r2⟩ := rebase_separated_after f t f2 t2 I slM false false (by omega) hle hsep (by omega)
+  rw [r2] at ha'
+  simp only [Option.some.injEq] at ha'
+  subst ha'
+  have hAdb : S.apply (.replaceAround f t gf gt sl ins st) db = .ok dab0 := by
+    have hfr := apply_replace_fromReplace S db dab0 _ _ I false hba
+    exact around_again_same S d db da dab0 f t gf gt ins f2 t2 sl slM.toks st gap I hn hnb hgo hsep
+      hle hlp hdb ha hgap ho1 ho2 hinst hfr
+  have hmap := (rebase_markup_not_dropped_around M f2 t2 hsp hle f t gf gt sl ins st hgo).2.2 hsep
+  have n1 : ∀ p : Nat, t < p →
+      ((p : Int) + ((ins : Int) - ((gf : Int) - f)) + (sl.size - ins - ((t : Int) - gt))).toNat =
+        f + I.toks.length + (p - t) := by
+    intro p hp; omega
+  generalize hgdef : (fun p : Nat => ((p : Int) + ((ins : Int) - ((gf : Int) - f)) +
+    (sl.size - ins - ((t : Int) - gt))).toNat) = g at hmap ⊢
+  have hg1 : g f2 = f + I.toks.length + (f2 - t) := by rw [← hgdef]; exact n1 f2 hsep
+  have hg2 : g t2 = f + I.toks.length + (t2 - t) := by rw [← hgdef]; exact n1 t2 (by omega)
+  obtain ⟨ty, a, m, K, K', rfl, rfl, hrK⟩ := fromReplace_parts S d db f2 t2 slM
+    (apply_replace_fromReplace S _ _ _ _ _ false hb2)
+  obtain ⟨al1, al2⟩ := replaceKids_aligned S ty K f2 t2 slM K' hrK
+  obtain ⟨ty', a', m', K0, Ka, e0, rfl, hrA⟩ := fromReplace_parts S _ da f t I
+    (apply_replace_fromReplace S _ _ _ _ _ false ha2)
+  cases e0
+  simp only [Node.kids] at hn hna hda hl al1 al2 ht2 hlp ⊢
+  have hvda : S.checkNode (.elem ty a m Ka) = true := C01.apply_valid S _ _ _ hv hpv ha
+  have hlenda : (ftoks Ka).length = f + I.toks.length + ((ftoks K).length - t) := by
+    rw [hda]; exact splice_length _ _ _ _ (by omega) hl
+  obtain ⟨dab, hMda⟩ := markStep_applies S hts (.elem ty a m Ka) f2 t2 mk g M hM hvda hna ⟨_, _, _, _, rfl⟩
+    (by rw [hg1, hg2]; omega)
+    (by simp only [Node.kids]; rw [hg2, ← ftoks_length, hlenda]; omega)
+    (by rw [hg1]; exact aligned_after_splice K Ka _ f t f2 hn hna hda (by omega) hl hsep al1)
+    (by rw [hg2]; exact aligned_after_splice K Ka _ f t t2 hn hna hda (by omega) hl (by omega) al2)
+  have hM' : M.mapPos g = .addMark (g f2) (g t2) mk ∨ M.mapPos g = .removeMark (g f2) (g t2) mk := by
+    rcases hM with rfl | rfl
+    · exact .inl rfl
+    · exact .inr rfl
+  have Fda := markStep_facts S _ dab (g f2) (g t2) mk (M.mapPos g) hM' hMda
+  refine ⟨dab, dab0, hmap, ?_, hMda, hAdb, Fda.norm hna, apply_replace_norm S _ dab0 _ _ I false hnb hin hba⟩
+  rw [getMap_of_touch M f2 t2 hto]
+  exact replaceAround_map_empty f t gf gt sl ins st ⟨hgo.1, hgo.2.2⟩
+
+/-- **a replace-around step and a mark step on a range strictly outside `[from, to]`, one of the two inside a node
+    the other one does not touch** (valid normal-form document, valid payload, text children may repeat; for an
+    add-mark step after the range the marked inline atoms keep the type of their enclosing node, `ParentStable`):
+    neither rebased step is dropped, both orders apply, and they give the same document -/
+theorem commute_succeeds_around_mark_partial (S : Schema) (hts : TextLoop S) (d da db : Node)
+    (f t gf gt ins : Nat) (sl : Slice) (st : Bool) (f2 t2 : Nat) (mk : Mark) (M : Step)
+    (hM : M = .addMark f2 t2 mk ∨ M = .removeMark f2 t2 mk)
+    (hv : C01.Valid S d) (hpv : C01.PayloadValid S d (.replaceAround f t gf gt sl ins st))
+    (hn : fnorm d.kids = true) (hsn : fnorm sl.content = true)
+    (hs : AroundShape f t gf gt sl ins)
+    (ha : S.apply (.replaceAround f t gf gt sl ins st) d = .ok da) (hb : S.apply M d = .ok db)
+    (old : Slice) (hold : d.slice f2 t2 = .ok old)
+    (hg : (t2 < f ∧ commuteGuard d.kids f2 t2 old f t sl = true) ∨
+      (t < f2 ∧ commuteGuard d.kids f t sl f2 t2 old = true))
+    (hstable : M = .addMark f2 t2 mk → t < f2 → ParentStable S d da f2 t2
+      ((f2 : Int) + ((ins : Int) - ((gf : Int) - f)) + (sl.size - ins - ((t : Int) - gt))).toNat) :
+    ∃ M' dab, M.map (Step.replaceAround f t gf gt sl ins st).getMap = some M' ∧
+      (Step.replaceAround f t gf gt sl ins st).map M.getMap = some (.replaceAround f t gf gt sl ins st) ∧
+      S.apply M' da = .ok dab ∧ S.apply (.replaceAround f t gf gt sl ins st) db = .ok dab := by
+  have hle : f2 ≤ t2 := (markStep_facts S d db f2 t2 mk M hM hb).range.1
+  rcases hg with ⟨hsep, hg⟩ | ⟨hsep, hg⟩
+  · obtain ⟨dab, dba, h1, h2, h3, h4, n1, n2⟩ := around_mark_core_before S hts d da db f t gf gt ins sl st f2 t2 mk M
+      hM hv hpv hn hsn hs hsep ha hb old hold hg
+    have := (commute_around_mark_unguarded S d da db dab dba f t gf gt ins sl st f2 t2 mk M M _ hle hs
+      (by rcases hM with rfl | rfl
+          · exact .inl ⟨rfl, hsep⟩
+          · exact .inr ⟨rfl, .inl hsep⟩) ha hb h1 h2 h3 h4).2 n1 n2
+    subst this
+    exact ⟨M, dab, h1, h2, h3, h4⟩
+  · obtain ⟨dab, dba, h1, h2, h3, h4, n1, n2⟩ := around_mark_core_after S hts d da db f t gf gt ins sl st f2 t2 mk M
+      hM hv hpv hn hsn hs hsep ha hb old hold hg
+    have : dab = dba := by
+      rcases hM with rfl | rfl
+      · exact (commute_around_mark_partial S d da db dab dba f t gf gt ins sl st f2 t2 _ _ mk _ hle hs
+          (.inr hsep) ha hb h1 h2 h3 h4 (hstable rfl hsep)).2 n1 n2
+      · exact (commute_around_mark_unguarded S d da db dab dba f t gf gt ins sl st f2 t2 mk _ _ _ hle hs
+          (.inr ⟨rfl, .inr (.inr hsep)⟩) ha hb h1 h2 h3 h4).2 n1 n2
+    subst this
+    exact ⟨_, dab, h1, h2, h3, h4⟩
+
+/-- remove-mark steps: no `ParentStable` -/
+theorem commute_succeeds_around_removeMark_partial (S : Schema) (hts : TextLoop S) (d da db : Node)
+    (f t gf gt ins : Nat) (sl : Slice) (st : Bool) (f2 t2 : Nat) (mk : Mark)
+    (hv : C01.Valid S d) (hpv : C01.PayloadValid S d (.replaceAround f t gf gt sl ins st))
+    (hn : fnorm d.kids = true) (hsn : fnorm sl.content = true)
+    (hs : AroundShape f t gf gt sl ins)
+    (ha : S.apply (.replaceAround f t gf gt sl ins st) d = .ok da)
+    (hb : S.apply (.removeMark f2 t2 mk) d = .ok db)
+    (old : Slice) (hold : d.slice f2 t2 = .ok old)
+    (hg : (t2 < f ∧ commuteGuard d.kids f2 t2 old f t sl = true) ∨
+      (t < f2 ∧ commuteGuard d.kids f t sl f2 t2 old = true)) :
+    ∃ M' dab, (Step.removeMark f2 t2 mk).map (Step.replaceAround f t gf gt sl ins st).getMap = some M' ∧
+      (Step.replaceAround f t gf gt sl ins st).map (Step.removeMark f2 t2 mk).getMap =
+        some (.replaceAround f t gf gt sl ins st) ∧
+      S.apply M' da = .ok dab ∧ S.apply (.replaceAround f t gf gt sl ins st) db = .ok dab :=
+  commute_succeeds_around_mark_partial S hts d da db f t gf gt ins sl st f2 t2 mk _ (.inr rfl) hv hpv hn hsn hs
+    ha hb old hold hg (fun h => by cases h)
+
+/-- add-mark steps: `ParentStable` when the marked range lies after the replace-around step -/
+theorem commute_succeeds_around_addMark_partial (S : Schema) (hts : TextLoop S) (d da db : Node)
+    (f t gf gt ins : Nat) (sl : Slice) (st : Bool) (f2 t2 : Nat) (mk : Mark)
+    (hv : C01.Valid S d) (hpv : C01.PayloadValid S d (.replaceAround f t gf gt sl ins st))
+    (hn : fnorm d.kids = true) (hsn : fnorm sl.content = true)
+    (hs : AroundShape f t gf gt sl ins)
+    (ha : S.apply (.replaceAround f t gf gt sl ins st) d = .ok da)
+    (hb : S.apply (.addMark f2 t2 mk) d = .ok db)
+    (old : Slice) (hold : d.slice f2 t2 = .ok old)
+    (hg : (t2 < f ∧ commuteGuard d.kids f2 t2 old f t sl = true) ∨
+      (t < f2 ∧ commuteGuard d.kids f t sl f2 t2 old = true))
+    (hstable : t < f2 → ParentStable S d da f2 t2
+      ((f2 : Int) + ((ins : Int) - ((gf : Int) - f)) + (sl.size - ins - ((t : Int) - gt))).toNat) :
+    ∃ M' dab, (Step.addMark f2 t2 mk).map (Step.replaceAround f t gf gt sl ins st).getMap = some M' ∧
+      (Step.replaceAround f t gf gt sl ins st).map (Step.addMark f2 t2 mk).getMap =
+        some (.replaceAround f t gf gt sl ins st) ∧
+      S.apply M' da = .ok dab ∧ S.apply (.replaceAround f t gf gt sl ins st) db = .ok dab :=
+  commute_succeeds_around_mark_partial S hts d da db f t gf gt ins sl st f2 t2 mk _ (.inl rfl) hv hpv hn hsn hs
+    ha hb old hold hg (fun _ h => hstable h)
+
 /-! Non-vacuity of the decidable hypotheses of `commute_succeeds_around_around`: in
     `doc(quote(p("a")), quote(p("b")))` two users re-create the two paragraphs around their content
     (`set_node_markup`-shaped steps `replaceAround 1 4 2 3 <p>` and `replaceAround 6 9 7 8 <p>`); both have the
@@ -1362,6 +1708,8 @@ example :
 
 /-! ### a step strictly inside the kept gap of a replace-around step: the guard (`gapGuard`, PM/CommuteGuard.lean)
 
+In-gap pairs are *overlapping* in the sense of property C17 (the partner's range lies inside `[from, to]`; only the
+touched tokens are disjoint), so nothing below is a violation of C17: this section extends the convergence theory to them.
 Without a guard the rebased steps need not apply (real code, harness counters `gap-pair:an-order-fails:<opA>/<opB>`,
 182 of 2973 in-gap pairs at seed 0).  The failing pairs are of two kinds, neither excused by C17-parent-retyped:
 * the inner step closes the node the gap lives in (a `split` of the re-typed textblock, a replace whose slice is open
@@ -1379,34 +1727,892 @@ on the real `ResolvedPos` data, and the relational oracle "guard ⇒ the real co
 equal documents" on every in-gap pair with a replace or replace-around partner (seeds 0–3: no counterexample;
 seed 0: guard true on 1344 pairs, all converge; false on 859, of which 181 have a failing order).
 
-    theorem commute_succeeds_around_gap (hn : fnorm d.kids) (hsn1 : fnorm s1.content) (hsn : fnorm sl.content)
-        (hs : AroundShape f t gf gt sl ins) (h : gf < f1) (h' : t1 < gt)
-        (ha : S.apply (.replace f1 t1 s1 b1) d = .ok da)
-        (hb : S.apply (.replaceAround f t gf gt sl ins st) d = .ok db)
-        (hg : gapGuard d.kids gf gt f1 t1 s1 = true) :
-        ∃ A' R' dab, (Step.replaceAround f t gf gt sl ins st).map (Step.replace f1 t1 s1 b1).getMap = some A' ∧
-          (Step.replace f1 t1 s1 b1).map (Step.replaceAround f t gf gt sl ins st).getMap = some R' ∧
-          S.apply A' da = .ok dab ∧ S.apply R' db = .ok dab
+Proved below (`commute_succeeds_around_gap`) for replace-around steps whose slice is closed on both sides (`wrap`,
+`set_node_markup`, `set_block_type`, a `lift` of a node's whole content: hypothesis `hcl`, which also settles the caveat
+"the gap content must not sit on an open spine of the filled slice"), for valid documents and payloads, under
+`compatTransB` (join-compatibility of node types is transitive: every bundled schema; tied per schema by the C16 check) and with the two ends of the
+inserted content pair-aligned in `db` (`hdbal`: decidable on the given documents; as in C16 `replaceKids_merge_open`).
+How: the guard puts the inner step into the content `kN` of an element node inside the gap (`gap_setup`); that node
+is found again — as a nested level — in `db` and in the gap content from their tokens (`lvl_window_toks`), so the
+rebased inner step is the same replace of `kN` (`Lvl.replaceKids_eq`) and yields the expected result `dab`; `dab` is
+valid (`C01.apply_valid` twice), and the rebased replace-around step reaches it by the target-based criterion
+`replaceKids_merged`: the gap is cut again with the node's content exchanged (`gap_slice_inner`), `Slice.insertAt`
+succeeds alike because it reads the fragment's top-level types and marks only (`insertAt_success_congr`), the
+right-hand sides are related through `d` (`rightRel_after_lvl`, `FwdFacts.rrel`).
+FULL STATEMENT (open for slices open on a side — a `lift` out of the middle of its parent): the same without `hcl`;
+needs the filled slice split as `fappend cA cB` at a top-level seam and `lcompat` for its left spine. -/
 
-NOT PROVED.  What is there: the rebased steps (`rebase_around_separated`, gap clause), convergence when all four
-applications succeed (`commute_replace_around`).  What is missing, in the order a proof would use it:
-1. `insideGap_decomp` (analogue of `insideLeft_decomp`, Proofs/CommuteSuccess.lean): the guard gives a level
-   `Lvl ty K b nd tyA (P ++ n :: R) ctx` with `n = .elem tyN aN mN kN`, `gf ≤ b + fsize P`,
-   `b + fsize P + n.size ≤ gt`, and the inner replace is `replaceKids S tyN kN g1 h1 s1 = .ok kN'` inside `n`
-   (then `da.kids = ctx (P ++ .elem tyN aN mN kN' :: R)` by `replaceKids_eq`).
-2. `sliceKids_inner_congr`: the gap of `da` at `[gf, gt + δ1)` is the gap of `d` with `n` replaced by
-   `.elem tyN aN mN kN'` at the same place (closed again) — `slice_again` does not apply, the tokens differ.
-3. **the real gap**: `insertAt_inner_congr` + `replaceKids_slice_inner_congr`: `Slice.insertAt` and `replaceKids`
-   succeed alike, with `n` exchanged for `.elem tyN aN mN kN'` in the result, when an element node strictly inside the
-   slice content — not on its open spines — has its children exchanged (same markup, normal form).  This is the
-   slice-side counterpart of `replaceKids_prefix` / `replaceKids_suffix` (which exchange the content of a *document*
-   node next to the range); nothing of the kind exists yet.  It needs "the gap content is never on the open spine of
-   the filled slice", which holds for `insert`-positions the library builds but not for every `AroundShape`
-   (`sl = <ul(li(p))>(3, _)`, `insert = 2` puts the gap in front of `p`): either a further decidable hypothesis
-   (`openStart ≤` depth of the insertion point's left neighbours) or a proof that such a step never applies.
-4. the other order: `replaceKids_eq` under `ctx' ` of `db` — the node `n` sits in `db` inside the nodes of `sl` at
-   `f + ins + (start n − gf)`, found through `replaceKids_toks`-style facts only; needs a `Lvl` for `db` built from the
-   `insertAt` / `replaceKids` results of step 3. -/
+set_option maxHeartbeats 400000 in
+/-- **a replace step strictly inside the kept gap of a replace-around step, happening inside an element node of the gap
+    content** (`gapGuard`): neither rebased step is dropped, both orders apply, and they give the same document -/
+theorem commute_succeeds_around_gap (S : Schema) (htr : compatTransB S = true) (d da db : Node)
+    (f t gf gt ins f1 t1 : Nat) (sl s1 : Slice) (st b1 : Bool)
+    (hv : C01.Valid S d) (hpvA : C01.PayloadValid S d (.replaceAround f t gf gt sl ins st))
+    (hpvR : openValid S s1.openStart s1.openEnd s1.content = true)
+    (hn : fnorm d.kids = true) (hsn1 : fnorm s1.content = true) (hsn : fnorm sl.content = true)
+    (hs : AroundShape f t gf gt sl ins) (hcl : sl.openStart = 0 ∧ sl.openEnd = 0)
+    (h : gf < f1) (h' : t1 < gt)
+    (ha : S.apply (.replace f1 t1 s1 b1) d = .ok da)
+    (hb : S.apply (.replaceAround f t gf gt sl ins st) d = .ok db)
+    (hdbal : alignedAt db.kids f = true ∧ alignedAt db.kids (f + sl.toks.length + (gt - gf)) = true)
+    (hg : gapGuard d.kids gf gt f1 t1 s1 = true) :
+    ∃ A' R' dab,
+      (Step.replaceAround f t gf gt sl ins st).map (Step.replace f1 t1 s1 b1).getMap = some A' ∧
+      (Step.replace f1 t1 s1 b1).map (Step.replaceAround f t gf gt sl ins st).getMap = some R' ∧
+      S.apply A' da = .ok dab ∧ S.apply R' db = .ok dab := by
+  have htr := compatTrans_of_B S htr
+  obtain ⟨gap, I, hgap, ho1, ho2, hinst, hb2, hio, hin, hisz, hl⟩ :=
+    around_as_replace S d db f t gf gt ins sl st hn hsn hs hb
+  obtain ⟨hwf, hins, hgo⟩ := id hs
+  have ka := apply_replace_fromReplace S d da f1 t1 s1 b1 ha
+  obtain ⟨ty, a, m, K, Ka, rfl, rfl, hrR⟩ := fromReplace_parts S d da f1 t1 s1 ka
+  obtain ⟨ty', a', m', K0, Kb, e0, rfl, hrA⟩ := fromReplace_parts S _ db f t I
+    (apply_replace_fromReplace S _ _ _ _ _ false hb2)
+  cases e0
+  simp only [Node.kids] at hn hl hdbal hg hgap
+  obtain ⟨hft1, ht1K, hwf1⟩ := replaceKids_guards S ty K f1 t1 s1 Ka hrR
+  unfold gapGuard at hg
+  obtain ⟨sN, nd, tyN, aN, mN, kN, kN', g1, h1, ctxi, A0, B0, hLi, hk, hEq, q1, q2, r1, r2, r4, r5, hA0, htokX,
+    hso, hkN⟩ := gap_setup S ty K Ka gf gt f1 t1 s1 hn h' hrR hg
+  clear hg
+  have hLK : ftoks K = A0 ++ (Tok.op tyN aN mN :: (ftoks kN ++ [Tok.cl])) ++ B0 := by
+    rw [← htokX kN, hLi.ctx_self]
+  have hLKa : ftoks Ka = A0 ++ (Tok.op tyN aN mN :: (ftoks kN' ++ [Tok.cl])) ++ B0 := by
+    rw [hEq, htokX kN']
+  have FR := fwdFacts S tyN kN kN' g1 h1 s1 hk
+  have hkN' : fnorm kN' = true := FR.norm hkN hsn1
+  have hszN := FR.size
+  clear FR htokX
+  have hWl : (Tok.op tyN aN mN :: (ftoks kN ++ [Tok.cl])).length = 2 + fsize kN := by
+    simp [ftoks_length]; omega
+  have hWl' : (Tok.op tyN aN mN :: (ftoks kN' ++ [Tok.cl])).length = 2 + fsize kN' := by
+    simp [ftoks_length]; omega
+  have hKlen : fsize K = sN + (2 + fsize kN) + B0.length := by
+    rw [← ftoks_length, hLK]; simp only [List.length_append, hWl, hA0]
+  have hKalen : fsize Ka = sN + (2 + fsize kN') + B0.length := by
+    rw [← ftoks_length, hLKa]; simp only [List.length_append, hWl', hA0]
+  rw [ftoks_length] at hl
+  -- the gap's tokens
+  have hgapW : ((ftoks K).drop gf).take (gt - gf) = A0.drop gf ++
+      (Tok.op tyN aN mN :: (ftoks kN ++ (Tok.cl :: B0.take (gt - sN - (2 + fsize kN))))) := by
+    rw [hLK, gap_window A0 _ B0 gf gt (by omega) (by rw [hWl]; omega), hWl, hA0]
+    simp [List.append_assoc]
+  -- the document after the replace-around step
+  obtain ⟨hdbL, _, hXl, hYl⟩ := apply_around_aroundL S _ _ f t gf gt sl ins st hs hb
+  simp only [Node.kids] at hdbL
+  rw [← aroundL_eq _ _ _ f gf gt t hgo (by rw [ftoks_length]; exact hl), hgapW] at hdbL
+  generalize hpreB : (ftoks K).take f ++ sl.toks.take ins ++ A0.drop gf = preB at hdbL
+  generalize hpostB : B0.take (gt - sN - (2 + fsize kN)) ++ sl.toks.drop ins ++ (ftoks K).drop t = postB
+  have hKb : ftoks Kb = preB ++ (Tok.op tyN aN mN :: (ftoks kN ++ (Tok.cl :: postB))) := by
+    rw [hdbL, ← hpreB, ← hpostB]; simp [List.append_assoc]
+  have hpreBl : preB.length = f + ins + (sN - gf) := by
+    rw [← hpreB]
+    simp only [List.length_append, List.length_take, List.length_drop, hA0, ftoks_length] at hXl ⊢
+    omega
+  have hnb : fnorm Kb = true := replaceKids_norm S ty K f t I Kb hn hin hrA
+  obtain ⟨ndb, ctxb, hLb, htokb⟩ := lvl_window_toks Kb ty tyN aN mN kN preB postB hnb hkN hKb
+  -- the rebased replace step on `db`: inside the same node
+  have hEqb := hLb.replaceKids_eq (S := S) s1 g1 h1 r1 r2 hso
+  rw [hk] at hEqb
+  simp only [Except.map] at hEqb
+  -- the gap of `da`: the gap of `d` with the node's content exchanged
+  have hgap' : sliceKids K gf gt = .ok gap := hgap
+  have hgcl : gap = ⟨gap.content, 0, 0⟩ := by cases gap; simp at ho1 ho2; simp [ho1, ho2]
+  have hgn := (sliceKids_norm K gf gt gap hn hgap').1
+  have hgT : ftoks gap.content = A0.drop gf ++ (Tok.op tyN aN mN :: (ftoks kN ++
+      (Tok.cl :: B0.take (gt - sN - (2 + fsize kN))))) := by
+    rw [← Slice.toks_closed, ← hgcl, sliceKids_toks K gf gt gap hgo.2.1 (by omega) hgap', hgapW]
+  obtain ⟨ndg, ctxg, hLg, hGT⟩ := lvl_window_toks gap.content ty tyN aN mN kN _ _ hgn hkN hgT
+  have hG'n : fnorm (ctxg kN') = true := hLg.ctx_norm hgn kN' hkN'
+  have hgself : ctxg kN = gap.content := hLg.ctx_self
+  obtain ⟨lab1, lab2⟩ := hLg.ctx_labels S kN kN'
+  rw [hgself] at lab1 lab2
+  obtain ⟨I', hI'⟩ := insertAt_success_congr S sl I ins gap.content (ctxg kN') lab1 lab2 hinst
+  obtain ⟨hI'T, hI'o1, hI'o2⟩ := insertAt_toks S sl I' ins (ctxg kN') hwf hins hI'
+  have hI'n := insertAt_norm S sl I' ins (ctxg kN') hsn hG'n hI'
+  obtain ⟨hIT, _, hIo2'⟩ := insertAt_toks S sl I ins gap.content hwf hins hinst
+  clear lab1 lab2 hgself hinst
+  have FRk := fwdFacts S ty K Ka f1 t1 s1 hrR
+  have FA := fwdFacts S ty K Kb f t I hrA
+  have hna : fnorm Ka = true := FRk.norm hn hsn1
+  have hda : ftoks Ka = splice (ftoks K) f1 t1 s1.toks := FRk.toks
+  have hIo1 : I.openStart = 0 := by rw [hio]; exact hcl.1
+  have hIo2 : I.openEnd = 0 := by rw [hIo2']; exact hcl.2
+  have hI'cl : I' = ⟨I'.content, 0, 0⟩ := by
+    cases I'; simp at hI'o1 hI'o2; simp [hI'o1, hI'o2, hcl.1, hcl.2]
+  have hB0r : (B0.take (gt - sN - (2 + fsize kN))).length = gt - sN - (2 + fsize kN) := by
+    rw [List.length_take]; omega
+  have hG'sz : fsize (ctxg kN') = (sN - gf) + (2 + fsize kN') + (gt - sN - (2 + fsize kN)) := by
+    have := congrArg List.length (hGT kN')
+    simp only [List.length_append, List.length_cons, List.length_drop, ftoks_length, hA0, hB0r] at this
+    omega
+  have hItl : I.toks.length = sl.toks.length + (gt - gf) := by
+    obtain ⟨_, _, _, e1⟩ := apply_replace_splice S _ _ f t I false hb2
+    obtain ⟨e2, _⟩ := Slice.toks_length_of_wf_ex sl hwf
+    omega
+  have hI'tl : I'.toks.length + fsize kN = sl.toks.length + (gt - gf) + fsize kN' := by
+    have e1 := congrArg List.length hI'T
+    have e2 := congrArg List.length (hGT kN')
+    have e3 := congrArg List.length hIT
+    have e4 := congrArg List.length hgT
+    simp only [List.length_append, List.length_cons, ftoks_length] at e1 e2 e3 e4
+    omega
+  -- the gap is cut again
+  have hslice' : sliceKids Ka gf (f1 + s1.toks.length + (gt - t1)) = .ok ⟨ctxg kN', 0, 0⟩ :=
+    gap_slice_inner K Ka gap (ctxg kN') A0 B0 _ gf gt f1 t1 (gt - sN - (2 + fsize kN)) s1.toks hn hna hG'n hgap'
+      hLKa (by rw [hGT kN']; simp [List.append_assoc]) (by omega) (by omega) hda hft1 ht1K h h'
+      (arith_G gf sN _ _ gt f1 t1 g1 h1 _ _ q1 q2 hszN r1 r2 r4 r5 hG'sz)
+  -- validity of the expected result
+  have hvdb : C01.Valid S (.elem ty a m Kb) := C01.apply_valid S _ _ _ hv hpvA hb
+  have hRdb : S.apply (.replace (preB.length + 1 + g1) (preB.length + 1 + h1) s1 false)
+      (.elem ty a m Kb) = .ok (.elem ty a m (ctxb kN')) := by
+    simp [Schema.apply, Schema.fromReplace, Schema.replace, hEqb, Except.map]
+  have hvdab := C01.apply_valid S (.replace _ _ s1 false) _ _ hvdb hpvR hRdb
+  simp only [C01.Valid, checkNode_elem, Bool.and_eq_true] at hvdab
+  have hn2 : fnorm (ctxb kN') = true := hLb.ctx_norm hnb kN' hkN'
+  have hTeq : f1 + s1.toks.length + (t - t1) = t - fsize kN + fsize kN' :=
+    arith_T2 f1 t1 t sN g1 h1 _ _ _ q1 q2 hszN r1 r2 (by omega)
+  -- tokens
+  have htk : ftoks (ctxb kN') = (ftoks Ka).take f ++ ((Slice.mk I'.content 0 0).toks ++ (Slice.mk [] 0 0).toks)
+      ++ (ftoks Ka).drop (f1 + s1.toks.length + (t - t1)) := by
+    rw [← hI'cl, hI'T, hGT kN', hTeq, htokb kN', ← hpreB, ← hpostB, hLKa, take_pre A0 _ B0 f (by omega),
+      drop_post A0 _ B0 _ (by rw [hWl']; omega), hLK, take_pre A0 _ B0 f (by omega),
+      drop_post A0 _ B0 t (by rw [hWl]; omega), hWl, hWl', hA0,
+      show t - fsize kN + fsize kN' - sN - (2 + fsize kN') = t - sN - (2 + fsize kN) by omega]
+    simp [Slice.toks, List.append_assoc]
+  -- alignment
+  obtain ⟨alKf, alKt⟩ := replaceKids_aligned S ty K f t I Kb hrA
+  have haf : alignedAt Ka f = true :=
+    aligned_before_splice K Ka _ f1 t1 f hn hna hda (by rw [ftoks_length]; omega) (by omega) alKf
+  have hsame : ∀ i, i ≤ f → (ftoks (ctxb kN'))[i]? = (ftoks Kb)[i]? := by
+    intro i hi
+    rw [htokb kN', hKb, List.getElem?_append]
+    conv => rhs; rw [List.getElem?_append]
+    by_cases hlt : i < preB.length
+    · rw [if_pos hlt, if_pos hlt]
+    · have : i = preB.length := by omega
+      rw [if_neg hlt, if_neg hlt, this]
+      simp
+  have haf2 : alignedAt (ctxb kN') f = true :=
+    alignedAt_transfer (ctxb kN') Kb f hn2 hnb (hsame _ (Nat.sub_le _ _)).symm (hsame _ (Nat.le_refl _)).symm hdbal.1
+  clear hsame
+  -- the right-hand sides
+  have R1 : RightRel S Ka (f1 + s1.toks.length + (t - t1)) K t := by
+    have := rightRel_after_lvl S hLi (by omega) hn kN' t (by omega) (by omega) alKt
+    rw [← hEq, ← hTeq] at this
+    exact this
+  have R2 : RightRel S Kb (f + I.toks.length) K t :=
+    FA.rrel hn hin (.inl hIo1) (by rw [hItl, ← Nat.add_assoc]; exact hdbal.2)
+  have hKblen : fsize Kb = f + I.toks.length + (fsize K - t) := FA.size
+  have hinsl : ins ≤ sl.toks.length := by
+    have := hXl; simp only [List.length_take] at this; omega
+  have R3 : RightRel S (ctxb kN') (f + I.toks.length - fsize kN + fsize kN') Kb (f + I.toks.length) :=
+    rightRel_after_lvl S hLb (by omega) hnb kN' (f + I.toks.length) (by rw [hItl]; omega) (by omega)
+      (by rw [hItl, ← Nat.add_assoc]; exact hdbal.2)
+  have hR : RightRel S Ka (f1 + s1.toks.length + (t - t1)) (ctxb kN')
+      (f + (Slice.mk I'.content 0 0).toks.length + (Slice.mk ([] : List Node) 0 0).toks.length) := by
+    have := R1.trans htr (R2.symm.trans htr R3.symm)
+    rw [← hI'cl]
+    rw [hItl] at this
+    have e : f + (sl.toks.length + (gt - gf)) - fsize kN + fsize kN' =
+        f + I'.toks.length + (Slice.mk ([] : List Node) 0 0).toks.length := by
+      have e0 : (Slice.mk ([] : List Node) 0 0).toks.length = 0 := by rw [Slice.toks_closed]; rfl
+      rw [e0]; exact arith_e f _ _ _ _ hI'tl (by omega)
+    rw [← e]; exact this
+  -- depths
+  have hdb : depthAt Ka f - 0 + 0 = depthAt Ka (f1 + s1.toks.length + (t - t1)) := by
+    have d1 : depthAt Ka f = depthAt K f :=
+      depthAt_of_take_eq K Ka f (by omega) (by omega)
+        (by rw [hLKa, hLK, take_pre A0 _ B0 f (by omega), take_pre A0 _ B0 f (by omega)])
+    have d2 := R1.depth
+    have d3 := FA.depths
+    rw [hIo1, hIo2] at d3
+    omega
+  have hmerged := replaceKids_merged S ty Ka (ctxb kN') f (f1 + s1.toks.length + (t - t1)) I'.content [] 0 0
+    hna hvdab.1.1 hvdab.2 hn2 hI'n (by simp [fnorm, fnormKids, chainOk]) (Nat.zero_le _) (Nat.zero_le _)
+    (by omega) (by omega) htk haf haf2 hR (Nat.zero_le _) hdb (lcompat_zero S _ _ _ _)
+  have hfr : S.fromReplace (.elem ty a m Ka) f (f1 + s1.toks.length + (t - t1)) I' =
+      .ok (.elem ty a m (ctxb kN')) := by
+    have e : (Slice.mk (fappend I'.content []) 0 0) = I' := by rw [hI'cl]; rfl
+    rw [e] at hmerged
+    simp [Schema.fromReplace, Schema.replace, hmerged, Except.map]
+  -- the rebased steps
+  obtain ⟨hs1l, _⟩ := Slice.toks_length_of_wf_ex s1 hwf1
+  obtain ⟨eA, eR⟩ := (rebase_around_separated f t gf gt ins f1 t1 sl s1 st b1 hgo hft1).2.1 h h'
+  have nT := arith_shift t t1 f1 s1.toks.length s1.size hs1l hft1 (by omega)
+  have nG := arith_shift gt t1 f1 s1.toks.length s1.size hs1l hft1 h'
+  have nF := arith_in f1 ins gf f sN g1 preB.length q1 hpreBl r4 hgo.1
+  have nF2 := arith_in t1 ins gf f sN h1 preB.length q2 hpreBl r4 hgo.1
+  rw [nT, nG] at eA
+  rw [nF, nF2] at eR
+  refine ⟨_, _, .elem ty a m (ctxb kN'), eA, eR, ?_, hRdb⟩
+  have hst : st = true →
+      contentBetween (.elem ty a m Ka) f gf = some false ∧
+      contentBetween (.elem ty a m Ka) (f1 + s1.toks.length + (gt - t1)) (f1 + s1.toks.length + (t - t1)) = some false := by
+    intro hstt
+    subst hstt
+    exact struct_checks_again (.elem ty a m K) (.elem ty a m Ka) f t gf gt f _ gf _ hn hna hgo (by simp only [Node.kids]; exact hl)
+      (by simp only [Node.kids]; omega) (by omega) (arith_e2 _ gt t t1 h' hgo.2.2) (by omega)
+      (by simp only [Node.kids]; rw [hda]
+          exact splice_window_before _ _ f1 t1 f _ (by omega) (by rw [ftoks_length]; omega))
+      (by simp only [Node.kids]; rw [hda]
+          exact splice_window_after _ _ f1 t1 gt _ hft1 (by omega) (by rw [ftoks_length]; omega))
+      (apply_replaceAround_struct S _ _ f t gf gt sl ins hb)
+  exact around_applies_of_parts S _ _ f _ gf _ sl ins st ⟨ctxg kN', 0, 0⟩ I' hslice' rfl rfl hI' hfr hst
+
+
+/-- **two replace-around steps, the second one strictly inside the kept gap of the first one and inside an element node
+    of the gap content** (`gapGuard` on `(from', to', slice')`; first step's slice closed): the second step is the plain
+    replace by its filled slice, `commute_succeeds_around_gap` applies to it, and the rebased replace is the second
+    step again because its whole range moved unchanged (`around_again_window`) -/
+theorem commute_succeeds_around_around_gap (S : Schema) (htr : compatTransB S = true) (d da db : Node)
+    (f t gf gt ins f' t' gf' gt' ins' : Nat) (sl sl' : Slice) (st st' : Bool)
+    (hv : C01.Valid S d) (hpvA : C01.PayloadValid S d (.replaceAround f t gf gt sl ins st))
+    (hpvB : C01.PayloadValid S d (.replaceAround f' t' gf' gt' sl' ins' st'))
+    (hn : fnorm d.kids = true) (hsn : fnorm sl.content = true) (hsn' : fnorm sl'.content = true)
+    (hs : AroundShape f t gf gt sl ins) (hs' : AroundShape f' t' gf' gt' sl' ins')
+    (hcl : sl.openStart = 0 ∧ sl.openEnd = 0) (h : gf < f') (h' : t' < gt)
+    (ha : S.apply (.replaceAround f t gf gt sl ins st) d = .ok da)
+    (hb : S.apply (.replaceAround f' t' gf' gt' sl' ins' st') d = .ok db)
+    (hdaal : alignedAt da.kids f = true ∧ alignedAt da.kids (f + sl.toks.length + (gt - gf)) = true)
+    (hg : gapGuard d.kids gf gt f' t' sl' = true) :
+    ∃ A' B' dab,
+      (Step.replaceAround f t gf gt sl ins st).map
+        (Step.replaceAround f' t' gf' gt' sl' ins' st').getMap = some A' ∧
+      (Step.replaceAround f' t' gf' gt' sl' ins' st').map
+        (Step.replaceAround f t gf gt sl ins st).getMap = some B' ∧
+      S.apply B' da = .ok dab ∧ S.apply A' db = .ok dab := by
+  obtain ⟨gapB, IB, hgapB, ho1, ho2, hinstB, hb2, hioB, hinB, hiszB, hlB⟩ :=
+    around_as_replace S d db f' t' gf' gt' ins' sl' st' hn hsn' hs' hb
+  have hgo := hs.2.2
+  have hgo' := hs'.2.2
+  have hpayB : openValid S IB.openStart IB.openEnd IB.content = true := hpvB gapB IB hgapB hinstB
+  have hg' : gapGuard d.kids gf gt f' t' IB = true := by
+    unfold gapGuard at hg ⊢; rw [hioB]; exact hg
+  obtain ⟨A', R', dab, eA, eR, hA'db, hR'da⟩ := commute_succeeds_around_gap S htr d db da f t gf gt ins f' t' sl IB st
+    false hv hpvA hpayB hn hinB hsn hs hcl h h' hb2 ha hdaal hg'
+  obtain ⟨eA2, eR2⟩ := (rebase_around_separated f t gf gt ins f' t' sl IB st false hgo (by omega)).2.1 h h'
+  obtain ⟨eA3, eB3⟩ := (rebase_around_around f t gf gt ins f' t' gf' gt' ins' sl sl' st st' hgo hgo').2 h h'
+  rw [eA2] at eA; rw [eR2] at eR
+  simp only [Option.some.injEq] at eA eR
+  subst eA eR
+  have eqT : ∀ x : Nat, ((x : Int) + (IB.size - ((t' : Int) - f'))).toNat =
+      ((x : Int) + (((ins' : Int) - ((gf' : Int) - f')) + (sl'.size - ins' - ((t' : Int) - gt')))).toNat := by
+    intro x; congr 1; omega
+  rw [eqT t, eqT gt] at hA'db
+  refine ⟨_, _, dab, eA3, eB3, ?_, hA'db⟩
+  -- the second step on `da`: its range moved unchanged
+  obtain ⟨hdaL, hl, hXl, _⟩ := apply_around_aroundL S d da f t gf gt sl ins st hs ha
+  have hna : fnorm da.kids = true := by
+    obtain ⟨gap, I, hgap, _, _, hinst, ha2, hio, hin, hisz, _⟩ :=
+      around_as_replace S d da f t gf gt ins sl st hn hsn hs ha
+    exact apply_replace_norm S d da f t I false hn hin ha2
+  have hfr := apply_replace_fromReplace S da dab _ _ IB false hR'da
+  have np' : ∀ x : Nat, f' ≤ x → ((x : Int) + ((ins : Int) - ((gf : Int) - f))).toNat = f + ins + (f' - gf) + (x - f') := by
+    intro x hx; omega
+  rw [np' f' (Nat.le_refl _), np' t' (by omega), Nat.sub_self, Nat.add_zero] at hfr
+  rw [np' f' (Nat.le_refl _), np' t' (by omega), np' gf' (by omega), np' gt' (by omega), Nat.sub_self, Nat.add_zero]
+  have hlenda : (ftoks da.kids).length = f + ins + (gt - gf) + (sl.toks.drop ins).length + ((ftoks d.kids).length - t) := by
+    rw [hdaL, aroundL_length _ _ _ _ _ _ _ hgo hl, hXl]
+  have hw := aroundL_window_gap (ftoks d.kids) (sl.toks.take ins) (sl.toks.drop ins) f gf gt t (f' - gf) (t' - f')
+    hgo hl (by omega)
+  rw [hXl, ← hdaL, show gf + (f' - gf) = f' by omega] at hw
+  have htokda : ∀ x, gf < x → x < gt → (ftoks da.kids)[f + ins + (x - gf) - 1]? = (ftoks d.kids)[x - 1]? ∧
+      (ftoks da.kids)[f + ins + (x - gf)]? = (ftoks d.kids)[x]? := by
+    intro x hp1 hp2
+    have g1 := aroundL_getElem?_gap (ftoks d.kids) (sl.toks.take ins) (sl.toks.drop ins) f gf gt t (x - gf - 1) hgo hl (by omega)
+    have g2 := aroundL_getElem?_gap (ftoks d.kids) (sl.toks.take ins) (sl.toks.drop ins) f gf gt t (x - gf) hgo hl (by omega)
+    rw [hXl] at g1 g2
+    rw [hdaL]
+    constructor
+    · rw [show f + ins + (x - gf) - 1 = f + ins + (x - gf - 1) by omega, g1]; congr 1; omega
+    · rw [g2]; congr 1; omega
+  have := around_again_window S d da db dab f' t' gf' gt' ins' (f + ins + (f' - gf)) sl' st' gapB IB hn hna hgo' hlB
+    (by rw [hlenda]; omega) hw
+    (fun hlt => by
+      obtain ⟨al1, al2⟩ := sliceKids_aligned d.kids gf' gt' gapB hlt hgapB
+      constructor
+      · rw [show f + ins + (f' - gf) + (gf' - f') = f + ins + (gf' - gf) by omega]
+        exact alignedAt_shift da.kids d.kids _ gf' hna hn (by omega) (by omega) (htokda gf' (by omega) (by omega)).1
+          (htokda gf' (by omega) (by omega)).2 al1
+      · rw [show f + ins + (f' - gf) + (gt' - f') = f + ins + (gt' - gf) by omega]
+        exact alignedAt_shift da.kids d.kids _ gt' hna hn (by omega) (by omega) (htokda gt' (by omega) (by omega)).1
+          (htokda gt' (by omega) (by omega)).2 al2)
+    hb hgapB ho1 ho2 hinstB hfr
+  exact this
+
+/-- **an attr / remove-node-mark step strictly before a replace-around step with a closed slice: no `commuteGuard`**
+    (valid document and payload, `compatTransB`, the ends of the filled slice pair-aligned in `da`) -/
+theorem commute_succeeds_around_nodeStep_before_closed (S : Schema) (htr : compatTransB S = true) (d da db : Node)
+    (f t gf gt ins : Nat) (sl : Slice) (st : Bool) (pos : Nat) (N : Step)
+    (hN' : (∃ m, N = .removeNodeMark pos m) ∨ (∃ nm v, N = .attr pos nm v))
+    (hv : C01.Valid S d) (hpv : C01.PayloadValid S d (.replaceAround f t gf gt sl ins st))
+    (hn : fnorm d.kids = true) (hsn : fnorm sl.content = true)
+    (hs : AroundShape f t gf gt sl ins) (hcl : sl.openStart = 0 ∧ sl.openEnd = 0) (hsep : pos + 1 < f)
+    (ha : S.apply (.replaceAround f t gf gt sl ins st) d = .ok da) (hb : S.apply N d = .ok db)
+    (hdaal : alignedAt da.kids f = true ∧ alignedAt da.kids (f + sl.toks.length + (gt - gf)) = true) :
+    ∃ dab, N.map (Step.replaceAround f t gf gt sl ins st).getMap = some N ∧
+      (Step.replaceAround f t gf gt sl ins st).map N.getMap = some (.replaceAround f t gf gt sl ins st) ∧
+      S.apply N da = .ok dab ∧ S.apply (.replaceAround f t gf gt sl ins st) db = .ok dab := by
+  have htr := compatTrans_of_B S htr
+  have hN : NodeStepAt pos N := by
+    rcases hN' with ⟨m, rfl⟩ | ⟨nm, v, rfl⟩
+    · exact .inr (.inl ⟨m, rfl⟩)
+    · exact .inr (.inr ⟨nm, v, rfl⟩)
+  have hsp : N.posSpan = some (pos, pos) := by
+    rcases hN with ⟨m, rfl⟩ | ⟨m, rfl⟩ | ⟨n, v, rfl⟩ <;> rfl
+  have hto : N.touch = some (pos, pos + 1) := by
+    rcases hN with ⟨m, rfl⟩ | ⟨m, rfl⟩ | ⟨n, v, rfl⟩ <;> rfl
+  obtain ⟨n, u, hnat, hu, hfrN⟩ := nodeStep_full S d db pos N hN hb
+  obtain ⟨hposlt, hdbT, htok, _, _, _, _⟩ := nodeRepl_toks S d db n u pos _ _ hnat hu hfrN
+  obtain ⟨hsz, hun⟩ := nodeSlice_facts S n u _ _ hu
+  obtain ⟨hre, _⟩ := recreate_remarked S n u _ _ hu
+  have hnt : n.isText = false := by
+    cases n with
+    | text s m => simp [Schema.recreate] at hu
+    | leaf => rfl
+    | elem => rfl
+  have hb2 : S.apply (.replace pos (pos + 1) ⟨[u], 0, if n.isLeaf then 0 else 1⟩ false) d = .ok db := by
+    simpa [Schema.apply] using hfrN
+  obtain ⟨gap, I, hgap, ho1, ho2, hinst, ha2, hio, hin, hisz, hl⟩ :=
+    around_as_replace S d da f t gf gt ins sl st hn hsn hs ha
+  obtain ⟨hwf, hins, hgo⟩ := id hs
+  have hnb := apply_replace_norm S d db pos (pos + 1) _ false hn hun hb2
+  have hna := apply_replace_norm S d da f t I false hn hin ha2
+  obtain ⟨hda, _, _, hleni⟩ := apply_replace_splice S d da f t I false ha2
+  -- the documents as child lists
+  obtain ⟨ty, a, m, K, Ka, rfl, rfl, hrA⟩ := fromReplace_parts S d da f t I
+    (apply_replace_fromReplace S _ _ _ _ _ false ha2)
+  have hvd := hv
+  simp only [C01.Valid, checkNode_elem, Bool.and_eq_true] at hvd
+  simp only [Node.kids] at hn hna hda hl hdaal hnat hposlt htok
+  have hdbeq : db = .elem ty a m (remarkAt K pos u) := by
+    have := fromReplace_node S ty a m K pos n u hv hn hnat hre
+    rw [hfrN] at this
+    split at this
+    · simpa using this
+    · simp at this
+  subst hdbeq
+  simp only [Node.kids] at hnb hdbT
+  -- the node step on `da`
+  have hvda : S.checkNode (.elem ty a m Ka) = true := C01.apply_valid S _ _ _ hv hpv ha
+  have hp : pos < (ftoks K).length := by rw [ftoks_length]; exact hposlt
+  have htok' : (ftoks Ka)[pos]? = some n.headTok := by
+    rw [hda]; unfold splice
+    rw [splice_getElem? _ _ _ _ _ (by omega), if_pos (by omega), List.getElem?_eq_getElem hp]
+    rw [List.getD_eq_getElem?_getD, List.getElem?_eq_getElem hp] at htok
+    simpa using htok
+  obtain ⟨n', hnat', hhd, hnt'⟩ := nodeAtKids_of_head Ka pos n.headTok (fnormKids_of_fnorm hna) htok'
+    (by cases n <;> simp [Node.headTok, Node.isText] at hnt ⊢)
+    (by intro c mm; cases n <;> simp [Node.headTok, Node.isText] at hnt ⊢)
+  obtain ⟨e1, e2, e3, e4⟩ := recreate_congr_head S n n' (stepAttrs N n.attrs) (stepMarks S N n.marks) hhd hnt hnt'
+  have hu' : S.recreate n' (stepAttrs N n'.attrs) (stepMarks S N n'.marks) = .ok u := by
+    rw [e2, e3, e1]; exact hu
+  obtain ⟨hre', _⟩ := recreate_remarked S n' u _ _ hu'
+  have hNda : S.apply N (.elem ty a m Ka) = .ok (.elem ty a m (remarkAt Ka pos u)) := by
+    rcases hN' with ⟨mk, rfl⟩ | ⟨nm, v, rfl⟩
+    · exact removeNodeMark_applies S ty a m Ka pos mk n' u hvda hna hnat' hu'
+    · exact attrStep_applies S ty a m Ka pos nm v n' u hvda hna hnat' hu'
+  have hnat'' : (Node.elem ty a m Ka).nodeAt pos = .ok (some n') := hnat'
+  have hvdab := C01.apply_valid S N _ _ hvda
+    (by rcases hN' with ⟨mk, rfl⟩ | ⟨nm, v, rfl⟩ <;> exact trivial) hNda
+  simp only [C01.Valid, checkNode_elem, Bool.and_eq_true] at hvdab
+  obtain ⟨_, hdabT, _, _, _, _, _⟩ := nodeRepl_toks S (.elem ty a m Ka) _ n' u pos _ _ hnat'' hu'
+    (by rw [← nodeStep_apply_of S (.elem ty a m Ka) n' u pos N hN hnat'' hu']; exact hNda)
+  simp only [Node.kids] at hdabT
+  have hn2 : fnorm (remarkAt Ka pos u) = true := by
+    have hb3 : S.apply (.replace pos (pos + 1) ⟨[u], 0, if n'.isLeaf then 0 else 1⟩ false) (.elem ty a m Ka) =
+        .ok (.elem ty a m (remarkAt Ka pos u)) := by
+      rw [← hNda, nodeStep_apply_of S (.elem ty a m Ka) n' u pos N hN hnat'' hu']; simp [Schema.apply]
+    exact apply_replace_norm S (.elem ty a m Ka) _ pos (pos + 1) _ false hna hun hb3
+  -- the replace of `[from, to)` on `db`, target `dab`
+  have FA := fwdFacts S ty K Ka f t I hrA
+  have hIo1 : I.openStart = 0 := by rw [hio]; exact hcl.1
+  have hIo2 : I.openEnd = 0 := by
+    rw [(insertAt_toks S sl I ins gap.content hwf hins hinst).2.2]; exact hcl.2
+  have hIcl : I = ⟨I.content, 0, 0⟩ := by cases I; simp at hIo1 hIo2; simp [hIo1, hIo2]
+  have hItl : I.toks.length = sl.toks.length + (gt - gf) := by
+    obtain ⟨e2, _⟩ := Slice.toks_length_of_wf_ex sl hwf
+    omega
+  obtain ⟨alKf, alKt⟩ := replaceKids_aligned S ty K f t I Ka hrA
+  obtain ⟨hszb, _⟩ := mapNodeAt_spec K pos n hnat hre
+  obtain ⟨hszab, _⟩ := mapNodeAt_spec Ka pos n' hnat' hre'
+  have hKalen : fsize Ka = f + I.toks.length + (fsize K - t) := FA.size
+  have hsameb : ∀ i, pos < i → (ftoks (remarkAt K pos u))[i]? = (ftoks K)[i]? := by
+    intro i hi
+    rw [hdbT, List.append_assoc, List.getElem?_append_right (by simp; omega)]
+    simp only [List.length_take]
+    rw [Nat.min_eq_left (by omega), List.singleton_append, List.getElem?_cons,
+      if_neg (by omega), List.getElem?_drop]
+    congr 1; omega
+  have hsameab : ∀ i, pos < i → (ftoks (remarkAt Ka pos u))[i]? = (ftoks Ka)[i]? := by
+    intro i hi
+    have hpa : pos < (ftoks Ka).length := by rw [ftoks_length, hKalen]; omega
+    rw [hdabT, List.append_assoc, List.getElem?_append_right (by simp; omega)]
+    simp only [List.length_take]
+    rw [Nat.min_eq_left (by omega), List.singleton_append, List.getElem?_cons,
+      if_neg (by omega), List.getElem?_drop]
+    congr 1; omega
+  have haf : alignedAt (remarkAt K pos u) f = true :=
+    alignedAt_transfer _ K f hnb hn (hsameb _ (by omega)).symm (hsameb _ (by omega)).symm alKf
+  have haf2 : alignedAt (remarkAt Ka pos u) f = true :=
+    alignedAt_transfer _ Ka f hn2 hna (hsameab _ (by omega)).symm (hsameab _ (by omega)).symm hdaal.1
+  have hl' : t ≤ fsize K := by rw [← ftoks_length]; exact hl
+  have R1 := rightRel_remarkAt_before S K pos n hnat hre (fnormKids_of_fnorm hn) t (by omega) (by omega) alKt
+  have R1f := rightRel_remarkAt_before S K pos n hnat hre (fnormKids_of_fnorm hn) f (by omega) (by omega) alKf
+  have R2 : RightRel S Ka (f + I.toks.length) K t :=
+    FA.rrel hn hin (.inl hIo1) (by rw [hItl, ← Nat.add_assoc]; exact hdaal.2)
+  have R3 := rightRel_remarkAt_before S Ka pos n' hnat' hre' (fnormKids_of_fnorm hna) (f + I.toks.length)
+    (by omega) (by omega) (by rw [hItl, ← Nat.add_assoc]; exact hdaal.2)
+  have hR : RightRel S (remarkAt K pos u) t (remarkAt Ka pos u)
+      (f + (Slice.mk I.content 0 0).toks.length + (Slice.mk ([] : List Node) 0 0).toks.length) := by
+    have e0 : (Slice.mk ([] : List Node) 0 0).toks.length = 0 := by rw [Slice.toks_closed]; rfl
+    rw [← hIcl, e0, Nat.add_zero]
+    exact R1.trans htr (R2.symm.trans htr R3.symm)
+  have hdb : depthAt (remarkAt K pos u) f - 0 + 0 = depthAt (remarkAt K pos u) t := by
+    have d1 := R1.depth
+    have d2 := R1f.depth
+    have d3 := FA.depths
+    rw [hIo1, hIo2] at d3
+    omega
+  have htk : ftoks (remarkAt Ka pos u) = (ftoks (remarkAt K pos u)).take f ++
+      ((Slice.mk I.content 0 0).toks ++ (Slice.mk [] 0 0).toks) ++ (ftoks (remarkAt K pos u)).drop t := by
+    have e0 : (Slice.mk ([] : List Node) 0 0).toks = [] := by rw [Slice.toks_closed]; rfl
+    rw [← hIcl, e0, List.append_nil, hdabT, hdbT, hda]
+    unfold splice
+    have h1 := splice_before (ftoks K) [u.headTok] I.toks pos (pos + 1) f t (by omega) (by omega) (by omega)
+      (by omega)
+    have h2 := splice_after (ftoks K) [u.headTok] I.toks pos (pos + 1) f t 1 (by omega) (by omega) (by omega)
+      (by omega) rfl
+    rw [show pos + 1 + (f - (pos + 1)) = f by omega, show pos + 1 + (t - (pos + 1)) = t by omega] at h2
+    rw [h1, h2]
+  have hmerged := replaceKids_merged S ty (remarkAt K pos u) (remarkAt Ka pos u) f t I.content [] 0 0
+    hnb hvdab.1.1 hvdab.2 hn2 hin (by simp [fnorm, fnormKids, chainOk]) (Nat.zero_le _) (Nat.zero_le _)
+    (by omega) (by omega) htk haf haf2 hR (Nat.zero_le _) hdb (lcompat_zero S _ _ _ _)
+  have hfr : S.fromReplace (.elem ty a m (remarkAt K pos u)) f t I = .ok (.elem ty a m (remarkAt Ka pos u)) := by
+    have e : (Slice.mk (fappend I.content []) 0 0) = I := by rw [hIcl]; rfl
+    rw [e] at hmerged
+    simp [Schema.fromReplace, Schema.replace, hmerged, Except.map]
+  refine ⟨_, ?_, ?_, hNda, ?_⟩
+  · exact (rebase_markup_not_dropped_around N pos pos hsp (Nat.le_refl _) f t gf gt sl ins st hgo).1 (by omega)
+  · rw [getMap_of_touch N pos (pos + 1) hto]
+    exact replaceAround_map_empty f t gf gt sl ins st ⟨hgo.1, hgo.2.2⟩
+  · have hdbS : ftoks (Node.elem ty a m (remarkAt K pos u)).kids =
+        splice (ftoks (Node.elem ty a m K).kids) pos (pos + 1) [u.headTok] := by
+      simp only [Node.kids]; rw [hdbT]; rfl
+    have := around_again_shifted S (.elem ty a m K) (.elem ty a m (remarkAt K pos u)) (.elem ty a m Ka) _ f t gf gt ins
+      pos (pos + 1) sl [u.headTok] st gap I hn hnb hgo hsep (by omega) hl hdbS ha hgap ho1 ho2 hinst
+      (by simp only [List.length_singleton]
+          rw [show pos + 1 + (f - (pos + 1)) = f by omega, show pos + 1 + (t - (pos + 1)) = t by omega]; exact hfr)
+    simp only [List.length_singleton] at this
+    rwa [show pos + 1 + (f - (pos + 1)) = f by omega, show pos + 1 + (t - (pos + 1)) = t by omega,
+      show pos + 1 + (gf - (pos + 1)) = gf by omega, show pos + 1 + (gt - (pos + 1)) = gt by omega] at this
+
+/-- **an attr / remove-node-mark step strictly after a replace-around step with a closed slice: no `commuteGuard`** -/
+theorem commute_succeeds_around_nodeStep_after_closed (S : Schema) (htr : compatTransB S = true) (d da db : Node)
+    (f t gf gt ins : Nat) (sl : Slice) (st : Bool) (pos : Nat) (N : Step)
+    (hN' : (∃ m, N = .removeNodeMark pos m) ∨ (∃ nm v, N = .attr pos nm v))
+    (hv : C01.Valid S d) (hpv : C01.PayloadValid S d (.replaceAround f t gf gt sl ins st))
+    (hn : fnorm d.kids = true) (hsn : fnorm sl.content = true)
+    (hs : AroundShape f t gf gt sl ins) (hcl : sl.openStart = 0 ∧ sl.openEnd = 0) (hsep : t < pos)
+    (ha : S.apply (.replaceAround f t gf gt sl ins st) d = .ok da) (hb : S.apply N d = .ok db)
+    (hdaal : alignedAt da.kids f = true ∧ alignedAt da.kids (f + sl.toks.length + (gt - gf)) = true) :
+    ∃ N' dab, N.map (Step.replaceAround f t gf gt sl ins st).getMap = some N' ∧
+      (Step.replaceAround f t gf gt sl ins st).map N.getMap = some (.replaceAround f t gf gt sl ins st) ∧
+      S.apply N' da = .ok dab ∧ S.apply (.replaceAround f t gf gt sl ins st) db = .ok dab := by
+  have htr := compatTrans_of_B S htr
+  have hN : NodeStepAt pos N := by
+    rcases hN' with ⟨m, rfl⟩ | ⟨nm, v, rfl⟩
+    · exact .inr (.inl ⟨m, rfl⟩)
+    · exact .inr (.inr ⟨nm, v, rfl⟩)
+  have hsp : N.posSpan = some (pos, pos) := by
+    rcases hN with ⟨m, rfl⟩ | ⟨m, rfl⟩ | ⟨n, v, rfl⟩ <;> rfl
+  have hto : N.touch = some (pos, pos + 1) := by
+    rcases hN with ⟨m, rfl⟩ | ⟨m, rfl⟩ | ⟨n, v, rfl⟩ <;> rfl
+  obtain ⟨n, u, hnat, hu, hfrN⟩ := nodeStep_full S d db pos N hN hb
+  obtain ⟨hposlt, hdbT, htok, _, _, _, _⟩ := nodeRepl_toks S d db n u pos _ _ hnat hu hfrN
+  obtain ⟨hsz, hun⟩ := nodeSlice_facts S n u _ _ hu
+  obtain ⟨hre, _⟩ := recreate_remarked S n u _ _ hu
+  have hnt : n.isText = false := by
+    cases n with
+    | text s m => simp [Schema.recreate] at hu
+    | leaf => rfl
+    | elem => rfl
+  have hb2 : S.apply (.replace pos (pos + 1) ⟨[u], 0, if n.isLeaf then 0 else 1⟩ false) d = .ok db := by
+    simpa [Schema.apply] using hfrN
+  obtain ⟨gap, I, hgap, ho1, ho2, hinst, ha2, hio, hin, hisz, hl⟩ :=
+    around_as_replace S d da f t gf gt ins sl st hn hsn hs ha
+  obtain ⟨hwf, hins, hgo⟩ := id hs
+  have hnb := apply_replace_norm S d db pos (pos + 1) _ false hn hun hb2
+  have hna := apply_replace_norm S d da f t I false hn hin ha2
+  obtain ⟨hda, _, _, hleni⟩ := apply_replace_splice S d da f t I false ha2
+  obtain ⟨ty, a, m, K, Ka, rfl, rfl, hrA⟩ := fromReplace_parts S d da f t I
+    (apply_replace_fromReplace S _ _ _ _ _ false ha2)
+  simp only [Node.kids] at hn hna hda hl hdaal hnat hposlt htok
+  have hdbeq : db = .elem ty a m (remarkAt K pos u) := by
+    have := fromReplace_node S ty a m K pos n u hv hn hnat hre
+    rw [hfrN] at this
+    split at this
+    · simpa using this
+    · simp at this
+  subst hdbeq
+  simp only [Node.kids] at hnb hdbT
+  have FA := fwdFacts S ty K Ka f t I hrA
+  have hKalen : fsize Ka = f + I.toks.length + (fsize K - t) := FA.size
+  have hl' : t ≤ fsize K := by rw [← ftoks_length]; exact hl
+  -- the rebased node step
+  have hmap := (rebase_markup_not_dropped_around N pos pos hsp (Nat.le_refl _) f t gf gt sl ins st hgo).2.2 hsep
+  generalize hgdef : (fun p : Nat => ((p : Int) + ((ins : Int) - ((gf : Int) - f)) +
+    (sl.size - ins - ((t : Int) - gt))).toNat) = g at hmap
+  have hgpos : g pos = f + I.toks.length + (pos - t) := by
+    rw [← hgdef]; show ((pos : Int) + ((ins : Int) - ((gf : Int) - f)) + (sl.size - ins - ((t : Int) - gt))).toNat = _
+    omega
+  obtain ⟨c1, c2, c3⟩ := stepAttrs_mapPos N g pos hN
+  rw [hgpos] at c3
+  -- the node step on `da`
+  have hvda : S.checkNode (.elem ty a m Ka) = true := C01.apply_valid S _ _ _ hv hpv ha
+  have hp : pos < (ftoks K).length := by rw [ftoks_length]; exact hposlt
+  have htok' : (ftoks Ka)[f + I.toks.length + (pos - t)]? = some n.headTok := by
+    have := splice_window_after (ftoks K) I.toks f t pos 1 (by omega) (by omega) (by omega)
+    rw [← hda] at this
+    have h0 := congrArg (fun l => l[0]?) this
+    simp only [List.getElem?_take_of_lt (Nat.zero_lt_one), List.getElem?_drop, Nat.add_zero] at h0
+    rw [h0, List.getElem?_eq_getElem hp]
+    rw [List.getD_eq_getElem?_getD, List.getElem?_eq_getElem hp] at htok
+    simpa using htok
+  obtain ⟨n', hnat', hhd, hnt'⟩ := nodeAtKids_of_head Ka _ n.headTok (fnormKids_of_fnorm hna) htok'
+    (by cases n <;> simp [Node.headTok, Node.isText] at hnt ⊢)
+    (by intro c mm; cases n <;> simp [Node.headTok, Node.isText] at hnt ⊢)
+  obtain ⟨e1, e2, e3, e4⟩ := recreate_congr_head S n n' (stepAttrs N n.attrs) (stepMarks S N n.marks) hhd hnt hnt'
+  have hu' : S.recreate n' (stepAttrs (N.mapPos g) n'.attrs) (stepMarks S (N.mapPos g) n'.marks) = .ok u := by
+    rw [c1, c2 S, e2, e3, e1]; exact hu
+  obtain ⟨hre', _⟩ := recreate_remarked S n' u _ _ hu'
+  have hNg : (∃ mk, N.mapPos g = .removeNodeMark (f + I.toks.length + (pos - t)) mk) ∨
+      (∃ nm v, N.mapPos g = .attr (f + I.toks.length + (pos - t)) nm v) := by
+    rcases hN' with ⟨mk, rfl⟩ | ⟨nm, v, rfl⟩
+    · exact .inl ⟨mk, by simp [Step.mapPos, hgpos]⟩
+    · exact .inr ⟨nm, v, by simp [Step.mapPos, hgpos]⟩
+  have hNda : S.apply (N.mapPos g) (.elem ty a m Ka) =
+      .ok (.elem ty a m (remarkAt Ka (f + I.toks.length + (pos - t)) u)) := by
+    rcases hNg with ⟨mk, e⟩ | ⟨nm, v, e⟩
+    · rw [e] at hu' ⊢
+      exact removeNodeMark_applies S ty a m Ka _ mk n' u hvda hna hnat' hu'
+    · rw [e] at hu' ⊢
+      exact attrStep_applies S ty a m Ka _ nm v n' u hvda hna hnat' hu'
+  have hnat'' : (Node.elem ty a m Ka).nodeAt (f + I.toks.length + (pos - t)) = .ok (some n') := hnat'
+  have hvdab := C01.apply_valid S (N.mapPos g) _ _ hvda
+    (by rcases hNg with ⟨mk, e⟩ | ⟨nm, v, e⟩ <;> rw [e] <;> exact trivial) hNda
+  simp only [C01.Valid, checkNode_elem, Bool.and_eq_true] at hvdab
+  obtain ⟨_, hdabT, _, _, _, _, _⟩ := nodeRepl_toks S (.elem ty a m Ka) _ n' u _ _ _ hnat'' hu'
+    (by rw [← nodeStep_apply_of S (.elem ty a m Ka) n' u _ (N.mapPos g) c3 hnat'' hu']; exact hNda)
+  simp only [Node.kids] at hdabT
+  have hn2 : fnorm (remarkAt Ka (f + I.toks.length + (pos - t)) u) = true := by
+    have hb3 : S.apply (.replace (f + I.toks.length + (pos - t)) (f + I.toks.length + (pos - t) + 1)
+        ⟨[u], 0, if n'.isLeaf then 0 else 1⟩ false) (.elem ty a m Ka) =
+        .ok (.elem ty a m (remarkAt Ka (f + I.toks.length + (pos - t)) u)) := by
+      rw [← hNda, nodeStep_apply_of S (.elem ty a m Ka) n' u _ (N.mapPos g) c3 hnat'' hu']; simp [Schema.apply]
+    exact apply_replace_norm S (.elem ty a m Ka) _ _ _ _ false hna hun hb3
+  -- the replace of `[from, to)` on `db`, target `dab`
+  have hIo1 : I.openStart = 0 := by rw [hio]; exact hcl.1
+  have hIo2 : I.openEnd = 0 := by
+    rw [(insertAt_toks S sl I ins gap.content hwf hins hinst).2.2]; exact hcl.2
+  have hIcl : I = ⟨I.content, 0, 0⟩ := by cases I; simp at hIo1 hIo2; simp [hIo1, hIo2]
+  have hItl : I.toks.length = sl.toks.length + (gt - gf) := by
+    obtain ⟨e2, _⟩ := Slice.toks_length_of_wf_ex sl hwf
+    omega
+  obtain ⟨alKf, alKt⟩ := replaceKids_aligned S ty K f t I Ka hrA
+  obtain ⟨hszb, _⟩ := mapNodeAt_spec K pos n hnat hre
+  have hsameb : ∀ i, i < pos → (ftoks (remarkAt K pos u))[i]? = (ftoks K)[i]? := by
+    intro i hi
+    rw [hdbT, List.append_assoc, List.getElem?_append_left (by simp; omega), List.getElem?_take_of_lt hi]
+  have hsameab : ∀ i, i < f + I.toks.length + (pos - t) →
+      (ftoks (remarkAt Ka (f + I.toks.length + (pos - t)) u))[i]? = (ftoks Ka)[i]? := by
+    intro i hi
+    have hpa : f + I.toks.length + (pos - t) < (ftoks Ka).length := by rw [ftoks_length, hKalen]; omega
+    rw [hdabT, List.append_assoc, List.getElem?_append_left (by simp; omega), List.getElem?_take_of_lt hi]
+  have haf : alignedAt (remarkAt K pos u) f = true :=
+    alignedAt_transfer _ K f hnb hn (hsameb _ (by omega)).symm (hsameb _ (by omega)).symm alKf
+  have haf2 : alignedAt (remarkAt Ka (f + I.toks.length + (pos - t)) u) f = true :=
+    alignedAt_transfer _ Ka f hn2 hna (hsameab _ (by omega)).symm (hsameab _ (by omega)).symm hdaal.1
+  have R2 : RightRel S Ka (f + I.toks.length) K t :=
+    FA.rrel hn hin (.inl hIo1) (by rw [hItl, ← Nat.add_assoc]; exact hdaal.2)
+  have R3 := rightRel_remark S R2 pos (f + I.toks.length + (pos - t)) n n' hn hna (by omega) (by omega) (by omega)
+    hnat hnat' hre hre'
+  have hR : RightRel S (remarkAt K pos u) t (remarkAt Ka (f + I.toks.length + (pos - t)) u)
+      (f + (Slice.mk I.content 0 0).toks.length + (Slice.mk ([] : List Node) 0 0).toks.length) := by
+    have e0 : (Slice.mk ([] : List Node) 0 0).toks.length = 0 := by rw [Slice.toks_closed]; rfl
+    rw [← hIcl, e0, Nat.add_zero]
+    exact R3.symm
+  have htake : ∀ q, q ≤ pos → (ftoks (remarkAt K pos u)).take q = (ftoks K).take q := by
+    intro q hq
+    rw [hdbT, List.append_assoc, List.take_append_of_le_length (by simp; omega), List.take_take,
+      Nat.min_eq_left hq]
+  have hdb : depthAt (remarkAt K pos u) f - 0 + 0 = depthAt (remarkAt K pos u) t := by
+    have d1 := depthAt_of_take_eq K (remarkAt K pos u) f (by omega) (by omega) (htake f (by omega))
+    have d2 := depthAt_of_take_eq K (remarkAt K pos u) t (by omega) (by omega) (htake t (by omega))
+    have d3 := FA.depths
+    rw [hIo1, hIo2] at d3
+    omega
+  have htk : ftoks (remarkAt Ka (f + I.toks.length + (pos - t)) u) = (ftoks (remarkAt K pos u)).take f ++
+      ((Slice.mk I.content 0 0).toks ++ (Slice.mk [] 0 0).toks) ++ (ftoks (remarkAt K pos u)).drop t := by
+    have e0 : (Slice.mk ([] : List Node) 0 0).toks = [] := by rw [Slice.toks_closed]; rfl
+    rw [← hIcl, e0, List.append_nil, hdabT, hdbT, hda]
+    unfold splice
+    have h1 := splice_after (ftoks K) I.toks [u.headTok] f t pos (pos + 1) I.toks.length (by omega) (by omega)
+      (by omega) (by omega) rfl
+    have h2 := splice_before (ftoks K) I.toks [u.headTok] f t pos (pos + 1) (by omega) (by omega) (by omega)
+      (by omega)
+    rw [show f + I.toks.length + (pos + 1 - t) = f + I.toks.length + (pos - t) + 1 by omega] at h1
+    rw [h1, h2]
+  have hmerged := replaceKids_merged S ty (remarkAt K pos u) (remarkAt Ka (f + I.toks.length + (pos - t)) u) f t
+    I.content [] 0 0 hnb hvdab.1.1 hvdab.2 hn2 hin (by simp [fnorm, fnormKids, chainOk]) (Nat.zero_le _)
+    (Nat.zero_le _) (by omega) (by omega) htk haf haf2 hR (Nat.zero_le _) hdb (lcompat_zero S _ _ _ _)
+  have hfr : S.fromReplace (.elem ty a m (remarkAt K pos u)) f t I =
+      .ok (.elem ty a m (remarkAt Ka (f + I.toks.length + (pos - t)) u)) := by
+    have e : (Slice.mk (fappend I.content []) 0 0) = I := by rw [hIcl]; rfl
+    rw [e] at hmerged
+    simp [Schema.fromReplace, Schema.replace, hmerged, Except.map]
+  refine ⟨_, _, hmap, ?_, hNda, ?_⟩
+  · rw [getMap_of_touch N pos (pos + 1) hto]
+    exact replaceAround_map_empty f t gf gt sl ins st ⟨hgo.1, hgo.2.2⟩
+  · have hdbS : ftoks (Node.elem ty a m (remarkAt K pos u)).kids =
+        splice (ftoks (Node.elem ty a m K).kids) pos (pos + 1) [u.headTok] := by
+      simp only [Node.kids]; rw [hdbT]; rfl
+    exact around_again_same S (.elem ty a m K) (.elem ty a m (remarkAt K pos u)) (.elem ty a m Ka) _ f t gf gt ins
+      pos (pos + 1) sl [u.headTok] st gap I hn hnb hgo hsep (by omega) (by simp only [Node.kids]; omega) hdbS ha hgap
+      ho1 ho2 hinst hfr
+
+/-- **a replace-around step with a closed slice and an attr / remove-node-mark step on a token strictly outside
+    `[from, to]`: no `commuteGuard`** — neither rebased step is dropped, both orders apply, and they give the same
+    document.  `_partial` with respect to the full statement: closed slices only (`wrap`, `set_node_markup`,
+    `set_block_type`, whole-content `lift`), valid document and payload, `compatTransB`, aligned ends in `da`; an
+    add-node-mark step additionally needs that the parent of the addressed node still allows the mark in `da`. -/
+theorem commute_succeeds_around_nodeStep_closed_partial (S : Schema) (htr : compatTransB S = true) (d da db : Node)
+    (f t gf gt ins : Nat) (sl : Slice) (st : Bool) (pos : Nat) (N : Step)
+    (hN' : (∃ m, N = .removeNodeMark pos m) ∨ (∃ nm v, N = .attr pos nm v))
+    (hv : C01.Valid S d) (hpv : C01.PayloadValid S d (.replaceAround f t gf gt sl ins st))
+    (hn : fnorm d.kids = true) (hsn : fnorm sl.content = true)
+    (hs : AroundShape f t gf gt sl ins) (hcl : sl.openStart = 0 ∧ sl.openEnd = 0)
+    (hsep : pos + 1 < f ∨ t < pos)
+    (ha : S.apply (.replaceAround f t gf gt sl ins st) d = .ok da) (hb : S.apply N d = .ok db)
+    (hdaal : alignedAt da.kids f = true ∧ alignedAt da.kids (f + sl.toks.length + (gt - gf)) = true) :
+    ∃ N' dab, N.map (Step.replaceAround f t gf gt sl ins st).getMap = some N' ∧
+      (Step.replaceAround f t gf gt sl ins st).map N.getMap = some (.replaceAround f t gf gt sl ins st) ∧
+      S.apply N' da = .ok dab ∧ S.apply (.replaceAround f t gf gt sl ins st) db = .ok dab := by
+  rcases hsep with h | h
+  · obtain ⟨dab, h1, h2, h3, h4⟩ := commute_succeeds_around_nodeStep_before_closed S htr d da db f t gf gt ins sl st pos N
+      hN' hv hpv hn hsn hs hcl h ha hb hdaal
+    exact ⟨N, dab, h1, h2, h3, h4⟩
+  · exact commute_succeeds_around_nodeStep_after_closed S htr d da db f t gf gt ins sl st pos N hN' hv hpv hn hsn hs
+      hcl h ha hb hdaal
+
+/-- **a mark step strictly inside the kept gap, inside an element node of the gap content** (`gapGuard` with the open
+    depths of the slice the mark step re-marks; e.g. marking text of a paragraph that is being wrapped or lifted):
+    the mark step is the replace of its range by the re-marked slice, so `commute_succeeds_around_gap` applies; the
+    rebased mark step applies because the result of the replace-around step is valid and the moved ends stay
+    pair-aligned.  `_partial`: the guard is not forced for mark steps (it excludes marking the content of the very
+    textblock that `set_node_markup` / `set_block_type` re-create — there `ParentStable` is the real condition). -/
+theorem commute_succeeds_around_mark_gap_partial (S : Schema) (htr : compatTransB S = true) (hts : TextLoop S)
+    (d da db : Node) (f t gf gt ins : Nat) (sl : Slice) (st : Bool) (f2 t2 : Nat) (mk : Mark) (M : Step)
+    (hM : M = .addMark f2 t2 mk ∨ M = .removeMark f2 t2 mk)
+    (hv : C01.Valid S d) (hpv : C01.PayloadValid S d (.replaceAround f t gf gt sl ins st))
+    (hn : fnorm d.kids = true) (hsn : fnorm sl.content = true)
+    (hs : AroundShape f t gf gt sl ins) (hcl : sl.openStart = 0 ∧ sl.openEnd = 0)
+    (h : gf < f2) (h' : t2 < gt)
+    (ha : S.apply (.replaceAround f t gf gt sl ins st) d = .ok da) (hb : S.apply M d = .ok db)
+    (hdaal : alignedAt da.kids f = true ∧ alignedAt da.kids (f + sl.toks.length + (gt - gf)) = true)
+    (old : Slice) (hold : d.slice f2 t2 = .ok old) (hg : gapGuard d.kids gf gt f2 t2 old = true)
+    (hstable : M = .addMark f2 t2 mk → ParentStable S d da f2 t2
+      ((f2 : Int) + ((ins : Int) - ((gf : Int) - f))).toNat) :
+    ∃ M' dab, M.map (Step.replaceAround f t gf gt sl ins st).getMap = some M' ∧
+      (Step.replaceAround f t gf gt sl ins st).map M.getMap = some (.replaceAround f t gf gt sl ins st) ∧
+      S.apply M' da = .ok dab ∧ S.apply (.replaceAround f t gf gt sl ins st) db = .ok dab := by
+  obtain ⟨hsp, hto⟩ := markStep_span f2 t2 mk M hM
+  obtain ⟨old', slM, hold', hos, hslMn, hslMv, hb2⟩ :=
+    markStep_as_replace_valid S hts.stable d db f2 t2 mk M hM hn hv hb
+  rw [hold] at hold'; cases hold'
+  have F := markStep_facts S d db f2 t2 mk M hM hb
+  obtain ⟨hle, ht2⟩ := F.range
+  have hgo := hs.2.2
+  have hg' : gapGuard d.kids gf gt f2 t2 slM = true := by
+    unfold gapGuard at hg ⊢; rw [hos]; exact hg
+  obtain ⟨A', R', dab0, eA, eR, hA'db, hR'da⟩ := commute_succeeds_around_gap S htr d db da f t gf gt ins f2 t2 sl slM st
+    false hv hpv hslMv hn hslMn hsn hs hcl h h' hb2 ha hdaal hg'
+  obtain ⟨hdb, _, hlp, hlenM⟩ := apply_replace_splice S d db f2 t2 slM false hb2
+  have hlenS : slM.toks.length = t2 - f2 := by
+    have h1 := F.size
+    rw [← ftoks_length, ← ftoks_length, hdb, splice_length _ _ _ _ hle hlp] at h1
+    omega
+  -- the replace-around step is unchanged
+  obtain ⟨eA2, _⟩ := (rebase_around_separated f t gf gt ins f2 t2 sl slM st false hgo hle).2.1 h h'
+  rw [eA2] at eA
+  have e1 : ((t : Int) + (slM.size - ((t2 : Int) - f2))).toNat = t := by omega
+  have e2 : ((gt : Int) + (slM.size - ((t2 : Int) - f2))).toNat = gt := by omega
+  rw [e1, e2] at eA
+  simp only [Option.some.injEq] at eA
+  subst eA
+  -- the mark step on `da`
+  have hmap := (rebase_markup_not_dropped_around M f2 t2 hsp hle f t gf gt sl ins st hgo).2.1 h h'
+  generalize hgdef : (fun p : Nat => ((p : Int) + ((ins : Int) - ((gf : Int) - f))).toNat) = g at hmap
+  have hgv : ∀ p, gf ≤ p → g p = f + ins + (p - gf) := by
+    intro p hp; rw [← hgdef]; show ((p : Int) + ((ins : Int) - ((gf : Int) - f))).toNat = _; omega
+  obtain ⟨hdaL, hl, hXl, hYl⟩ := apply_around_aroundL S d da f t gf gt sl ins st hs ha
+  obtain ⟨ty, a, m, K, K', rfl, rfl, hrK⟩ := fromReplace_parts S d db f2 t2 slM
+    (apply_replace_fromReplace S _ _ _ _ _ false hb2)
+  obtain ⟨al1, al2⟩ := replaceKids_aligned S ty K f2 t2 slM K' hrK
+  obtain ⟨ty', a', m', k0, Ka, e0, rfl⟩ := apply_around_root S _ da f t gf gt sl ins st ha
+  cases e0
+  simp only [Node.kids] at hn hdaL hl al1 al2 ht2 hlp hdaal ⊢
+  have hvda : S.checkNode (.elem ty a m Ka) = true := C01.apply_valid S _ _ _ hv hpv ha
+  have hna : fnorm Ka = true := by
+    obtain ⟨gap, I, hgap, ho1, ho2, hinst, ha2, hio, hin, hisz, _⟩ :=
+      around_as_replace S (.elem ty a m K) _ f t gf gt ins sl st hn hsn hs ha
+    exact apply_replace_norm S (.elem ty a m K) _ f t I false hn hin ha2
+  have htokda : ∀ p, gf < p → p < gt → (ftoks Ka)[f + ins + (p - gf) - 1]? = (ftoks K)[p - 1]? ∧
+      (ftoks Ka)[f + ins + (p - gf)]? = (ftoks K)[p]? := by
+    intro p hp1 hp2
+    have g1 := aroundL_getElem?_gap (ftoks K) (sl.toks.take ins) (sl.toks.drop ins) f gf gt t (p - gf - 1) hgo hl (by omega)
+    have g2 := aroundL_getElem?_gap (ftoks K) (sl.toks.take ins) (sl.toks.drop ins) f gf gt t (p - gf) hgo hl (by omega)
+    rw [hXl] at g1 g2
+    rw [hdaL]
+    constructor
+    · rw [show f + ins + (p - gf) - 1 = f + ins + (p - gf - 1) by omega, g1]; congr 1; omega
+    · rw [g2]; congr 1; omega
+  have hlenda : (ftoks Ka).length = f + ins + (gt - gf) + (sl.toks.drop ins).length + ((ftoks K).length - t) := by
+    rw [hdaL, aroundL_length _ _ _ _ _ _ _ hgo hl, hXl]
+  obtain ⟨dab, hMda⟩ := markStep_applies S hts (.elem ty a m Ka) f2 t2 mk g M hM hvda hna ⟨_, _, _, _, rfl⟩
+    (by rw [hgv f2 (by omega), hgv t2 (by omega)]; omega)
+    (by simp only [Node.kids]; rw [hgv t2 (by omega), ← ftoks_length, hlenda]; omega)
+    (by rw [hgv f2 (by omega)]
+        exact alignedAt_shift Ka K _ f2 hna hn (by omega) (by omega) (htokda f2 h (by omega)).1
+          (htokda f2 h (by omega)).2 al1)
+    (by rw [hgv t2 (by omega)]
+        exact alignedAt_shift Ka K _ t2 hna hn (by omega) (by omega) (htokda t2 (by omega) h').1
+          (htokda t2 (by omega) h').2 al2)
+  have hA : (Step.replaceAround f t gf gt sl ins st).map M.getMap = some (.replaceAround f t gf gt sl ins st) := by
+    rw [getMap_of_touch M f2 t2 hto]
+    exact replaceAround_map_empty f t gf gt sl ins st ⟨hgo.1, hgo.2.2⟩
+  have hM' : M.mapPos g = .addMark (g f2) (g t2) mk ∨ M.mapPos g = .removeMark (g f2) (g t2) mk := by
+    rcases hM with rfl | rfl
+    · exact .inl rfl
+    · exact .inr rfl
+  have Fda := markStep_facts S _ dab (g f2) (g t2) mk (M.mapPos g) hM' hMda
+  have n1 := Fda.norm hna
+  have n2 : fnorm dab0.kids = true := by
+    obtain ⟨gap, I, hgap, ho1, ho2, hinst, ha2, hio, hin, hisz, _⟩ :=
+      around_as_replace S _ _ f t gf gt ins sl st (F.norm hn) hsn hs hA'db
+    exact apply_replace_norm S _ _ f t I false (F.norm hn) hin ha2
+  have : dab = dab0 := by
+    rcases hM with rfl | rfl
+    · have hst := hstable rfl
+      rw [show ((f2 : Int) + ((ins : Int) - ((gf : Int) - f))).toNat = g f2 by rw [← hgdef]] at hst
+      exact (commute_around_mark_partial S _ _ _ dab dab0 f t gf gt ins sl st f2 t2 _ _ mk _ hle hs
+        (.inl ⟨h, h'⟩) ha hb hmap hA hMda hA'db hst).2 n1 n2
+    · exact (commute_around_mark_unguarded S _ _ _ dab dab0 f t gf gt ins sl st f2 t2 mk _ _ _ hle hs
+        (.inr ⟨rfl, .inr (.inl ⟨h, h'⟩)⟩) ha hb hmap hA hMda hA'db).2 n1 n2
+  subst this
+  exact ⟨_, dab, hmap, hA, hMda, hA'db⟩
+
+theorem stepMarks_canonical (S : Schema) (pos : Nat) (N : Step) (hN : NodeStepAt pos N) (ms : Marks)
+    (h : canonicalMarks S ms = true) : canonicalMarks S (stepMarks S N ms) = true := by
+  rcases hN with ⟨m, rfl⟩ | ⟨m, rfl⟩ | ⟨n, v, rfl⟩
+  · exact addToSet_canonical S m ms h
+  · exact removeFromSet_canonical S m ms h
+  · exact h
+
+/-- **a node-mark / attr step on a token strictly inside the kept gap whose parent lies inside the gap**
+    (`gapGuard` for the one-token range with a closed slice: the addressed node is not a top-level node of the gap
+    content): both rebased steps apply and give the same document -/
+theorem commute_succeeds_around_nodeStep_gap_partial (S : Schema) (htr : compatTransB S = true) (d da db : Node)
+    (f t gf gt ins : Nat) (sl : Slice) (st : Bool) (pos : Nat) (N : Step) (hN : NodeStepAt pos N)
+    (hv : C01.Valid S d) (hpv : C01.PayloadValid S d (.replaceAround f t gf gt sl ins st))
+    (hn : fnorm d.kids = true) (hsn : fnorm sl.content = true)
+    (hs : AroundShape f t gf gt sl ins) (hcl : sl.openStart = 0 ∧ sl.openEnd = 0)
+    (h : gf < pos) (h' : pos + 1 < gt)
+    (ha : S.apply (.replaceAround f t gf gt sl ins st) d = .ok da) (hb : S.apply N d = .ok db)
+    (hdaal : alignedAt da.kids f = true ∧ alignedAt da.kids (f + sl.toks.length + (gt - gf)) = true)
+    (hg : gapGuard d.kids gf gt pos (pos + 1) ⟨[], 0, 0⟩ = true) :
+    ∃ N' dab, N.map (Step.replaceAround f t gf gt sl ins st).getMap = some N' ∧
+      (Step.replaceAround f t gf gt sl ins st).map N.getMap = some (.replaceAround f t gf gt sl ins st) ∧
+      S.apply N' da = .ok dab ∧ S.apply (.replaceAround f t gf gt sl ins st) db = .ok dab := by
+  have hsp : N.posSpan = some (pos, pos) := by
+    rcases hN with ⟨m, rfl⟩ | ⟨m, rfl⟩ | ⟨n, v, rfl⟩ <;> rfl
+  have hto : N.touch = some (pos, pos + 1) := by
+    rcases hN with ⟨m, rfl⟩ | ⟨m, rfl⟩ | ⟨n, v, rfl⟩ <;> rfl
+  obtain ⟨n, u, hnat, hu, hfrN⟩ := nodeStep_full S d db pos N hN hb
+  obtain ⟨hposlt, _, htok, _, _, _, _⟩ := nodeRepl_toks S d db n u pos _ _ hnat hu hfrN
+  obtain ⟨hsz, hun⟩ := nodeSlice_facts S n u _ _ hu
+  have hnt : n.isText = false := by
+    cases n with
+    | text s m => simp [Schema.recreate] at hu
+    | leaf => rfl
+    | elem => rfl
+  have hnv := nodeAtKids_valid S d.kids pos n (checkNode_kids hv) hnat
+  have hpay := recreate_payload S n u _ _ hnv (stepMarks_canonical S pos N hN _ (Node.marks_canonical hnv)) hu
+  have hb2 : S.apply (.replace pos (pos + 1) ⟨[u], 0, if n.isLeaf then 0 else 1⟩ false) d = .ok db := by
+    simpa [Schema.apply] using hfrN
+  have hgo := hs.2.2
+  have hg' : gapGuard d.kids gf gt pos (pos + 1) ⟨[u], 0, if n.isLeaf then 0 else 1⟩ = true := by
+    unfold gapGuard at hg ⊢; exact hg
+  obtain ⟨A', R', dab0, eA, eR, hA'db, hR'da⟩ := commute_succeeds_around_gap S htr d db da f t gf gt ins pos (pos + 1) sl
+    ⟨[u], 0, if n.isLeaf then 0 else 1⟩ st false hv hpv hpay hn hun hsn hs hcl h h' hb2 ha hdaal hg'
+  -- the replace-around step is unchanged, the replace moves by δX
+  obtain ⟨eA2, eR2⟩ := (rebase_around_separated f t gf gt ins pos (pos + 1) sl ⟨[u], 0, if n.isLeaf then 0 else 1⟩ st false
+    hgo (by omega)).2.1 h h'
+  rw [eA2] at eA; rw [eR2] at eR
+  have e1 : ((t : Int) + ((Slice.mk [u] 0 (if n.isLeaf then 0 else 1)).size - (((pos + 1 : Nat) : Int) - pos))).toNat = t := by
+    omega
+  have e2 : ((gt : Int) + ((Slice.mk [u] 0 (if n.isLeaf then 0 else 1)).size - (((pos + 1 : Nat) : Int) - pos))).toNat = gt := by
+    omega
+  have e3 : ((pos : Int) + ((ins : Int) - ((gf : Int) - f))).toNat = f + ins + (pos - gf) := by omega
+  have e4 : (((pos + 1 : Nat) : Int) + ((ins : Int) - ((gf : Int) - f))).toNat = f + ins + (pos - gf) + 1 := by omega
+  rw [e1, e2] at eA
+  rw [e3, e4] at eR
+  simp only [Option.some.injEq] at eA eR
+  subst eA eR
+  have hmap := (rebase_markup_not_dropped_around N pos pos hsp (Nat.le_refl _) f t gf gt sl ins st hgo).2.1 h (by omega)
+  generalize hgdef : (fun p : Nat => ((p : Int) + ((ins : Int) - ((gf : Int) - f))).toNat) = g at hmap
+  have hgpos : g pos = f + ins + (pos - gf) := by rw [← hgdef]; exact e3
+  have hA : (Step.replaceAround f t gf gt sl ins st).map N.getMap = some (.replaceAround f t gf gt sl ins st) := by
+    rw [getMap_of_touch N pos (pos + 1) hto]
+    exact replaceAround_map_empty f t gf gt sl ins st ⟨hgo.1, hgo.2.2⟩
+  refine ⟨_, dab0, hmap, hA, ?_, hA'db⟩
+  -- the node step on `da` finds the same token
+  obtain ⟨hdaL, hl, hXl, _⟩ := apply_around_aroundL S d da f t gf gt sl ins st hs ha
+  have hna : fnorm da.kids = true := by
+    obtain ⟨gap, I, hgap, ho1, ho2, hinst, ha2, hio, hin, hisz, _⟩ :=
+      around_as_replace S d da f t gf gt ins sl st hn hsn hs ha
+    exact apply_replace_norm S d da f t I false hn hin ha2
+  have hfr := apply_replace_fromReplace S da dab0 _ _ _ false hR'da
+  obtain ⟨c1, c2, c3⟩ := stepAttrs_mapPos N g pos hN
+  rw [hgpos] at c3
+  have hp : pos < (ftoks d.kids).length := by rw [ftoks_length]; exact hposlt
+  have htok' : (ftoks da.kids)[f + ins + (pos - gf)]? = some n.headTok := by
+    have := aroundL_getElem?_gap (ftoks d.kids) (sl.toks.take ins) (sl.toks.drop ins) f gf gt t (pos - gf) hgo hl (by omega)
+    rw [hXl] at this
+    rw [hdaL, this, show gf + (pos - gf) = pos by omega, List.getElem?_eq_getElem hp]
+    rw [List.getD_eq_getElem?_getD, List.getElem?_eq_getElem hp] at htok
+    simpa using htok
+  obtain ⟨n', hnat', hhd, hnt'⟩ := nodeAtKids_of_head da.kids _ n.headTok (fnormKids_of_fnorm hna) htok'
+    (by cases n <;> simp [Node.headTok, Node.isText] at hnt ⊢)
+    (by intro c m; cases n <;> simp [Node.headTok, Node.isText] at hnt ⊢)
+  obtain ⟨k1, k2, k3, k4⟩ := recreate_congr_head S n n' (stepAttrs N n.attrs) (stepMarks S N n.marks) hhd hnt hnt'
+  have hu' : S.recreate n' (stepAttrs (N.mapPos g) n'.attrs) (stepMarks S (N.mapPos g) n'.marks) = .ok u := by
+    rw [c1, c2 S, k2, k3, k1]; exact hu
+  rw [nodeStep_apply_of S da n' u _ _ c3 hnat' hu', k4]
+  exact hfr
+
+/-- non-vacuity of the decidable hypotheses of `commute_succeeds_around_gap` (and of the three theorems derived from
+    it): lifting both paragraphs out of `quote(p("a"), p("b"))` (`replaceAround 0 8 1 7 ⟨[], 0, 0⟩ 0`: closed slice, the
+    library's shape) against typing at 5 inside the second paragraph; the schema guard holds for the small schema of the
+    first example.  (Pairs of this kind that apply in the real code: harness counters `gapGuard:True,converged`,
+    `gapGuard-true:slice-closed=True,ends-aligned=True`.) -/
+example :
+    AroundShape 0 8 1 7 ⟨[], 0, 0⟩ 0 ∧ (Slice.mk [] 0 0).openStart = 0 ∧ (Slice.mk [] 0 0).openEnd = 0 ∧ 1 < 5 ∧ 5 < 7 ∧
+    gapGuard [.elem 3 [] [] [.elem 1 [] [] [.text [97] []], .elem 1 [] [] [.text [98] []]]] 1 7 5 5
+      ⟨[.text [120] []], 0, 0⟩ = true ∧ compatTransB tinyS = true := by
+  refine ⟨by decide, rfl, rfl, by decide, by decide, ?_, by decide⟩
+  simp [gapGuard, insideGap, depthAt]
 
 /-- the guard holds: in `doc(quote(p("a"), p("b")))`, lifting both paragraphs out of the quote
     (`replaceAround 0 8 1 7 ⟨[], 0, 0⟩ 0`, gap `[1, 7)`) against typing inside the second paragraph (`5 … 5`):
@@ -1415,6 +2621,24 @@ example :
     gapGuard [.elem 3 [] [] [.elem 1 [] [] [.text [97] []], .elem 1 [] [] [.text [98] []]]] 1 7 5 5
       ⟨[.text [120] []], 0, 0⟩ = true := by
   simp [gapGuard, insideGap, depthAt]
+
+/-- **the guard cannot be dropped** (`gapGuard_needs`): the counterexample found in the bundled basic schema, replayed
+    on the real code.  `doc(h1("0\nyxz\n", br), hr)` (types here: 1 heading, 2 hard_break, 3 horizontal_rule);
+    `set_node_markup(0, heading, level 2)` = `replaceAround 0 9 1 8 <h2()> insert 1` (gap `[1, 8)` = the heading's
+    content) against `replace 7 7 <h1()|code_block("\n𝒳")|h1()>(1, 1)` (from `replace_with`: closes the heading, puts a
+    code block, re-opens a heading).  Real code: both steps apply to the base document; neither rebased step is dropped
+    (`replaceAround 0 16 1 15 …` resp. `replace 7 7 …`); replace-around first, then the rebased replace: applies;
+    replace first, then the rebased replace-around step: **fails** ("Gap is not a flat range": `[1, 15)` now contains
+    `</h1> <code_block> … </code_block> <h1>`).  Such a pair is *overlapping*, not separated, in the sense of property
+    C17 (and of the harness's search population): the partner's range lies inside `[from, to] = [0, 9]` of the
+    replace-around step — only its *touched tokens* `[0, 1)` and `[8, 9)` are disjoint from it.  So this is not a
+    violation of C17, it delimits the in-gap extension: the guard is false here because the slice is open as deep as
+    position 7 is nested (`depth 1 − openStart 1 = 0` levels of descent: the step rebuilds the document level). -/
+example :
+    gapGuard [.elem 1 [("level", "1")] [] [.text [48, 10, 121, 120, 122, 10] [], .leaf 2 [] []], .leaf 3 [] []]
+      1 8 7 7 ⟨[.elem 1 [("level", "1")] [] [], .elem 4 [] [] [.text [10, 55349, 56499] []],
+        .elem 1 [("level", "1")] [] []], 1, 1⟩ = false := by
+  simp [gapGuard, insideGap, depthAt, Node.size]
 
 /-- … and fails for a split of the paragraph whose markup is being changed (`set_node_markup` on `p("ab")`:
     gap `[1, 3)`, split at 2 with `</p><p>` = slice `<p()|p()>(1,1)`): the split closes the node the gap lives in -/
